@@ -73,7 +73,7 @@ Lemma step_write s p v s' :
   vstep s (VWrite p v) = Some s' ->
   is_Some (vp s !! p) /\ vconn s' = vconn s /\ vlinks s' = vlinks s /\
   (forall q, is_Some (vp s' !! q) <-> is_Some (vp s !! q)) /\
-  getp s' p = VPeer (Some v) true (ptoken s p) (poutq s p) /\
+  getp s' p = VPeer (Some v) true false (poutq s p) /\
   (forall q, q <> p -> getp s' q = getp s q).
 Proof.
   simpl. destruct (vp s !! p) as [x|] eqn:Hx; [|discriminate]. intros [= <-].
@@ -81,7 +81,7 @@ Proof.
   - intros q. simpl. destruct (decide (q = p)) as [->|Hne].
     + rewrite lookup_insert, Hx. split; eauto.
     + rewrite lookup_insert_ne by congruence. reflexivity.
-  - unfold set_peer. rewrite getp_insert. unfold ptoken, poutq. rewrite (getp_exists _ _ _ Hx). reflexivity.
+  - unfold set_peer. rewrite getp_insert. unfold poutq. rewrite (getp_exists _ _ _ Hx). reflexivity.
   - intros q Hne. unfold set_peer. destruct s; simpl. apply getp_insert_ne. exact Hne.
 Qed.
 
@@ -354,7 +354,7 @@ Proof.
   - subst p. apply step_write in Hstep as (_ & _ & Hl & _ & Hp & Hq).
     split; unfold pdirty, poutq, ptoken, link in *.
     + intros p Hne. rewrite Hq by exact Hne. apply HA, Hne.
-    + rewrite Hp. simpl. exact HB.
+    + rewrite Hp. reflexivity.
     + intros c. rewrite Hl. apply HC.
     + intros c Hne. rewrite Hl. apply HU, Hne.
   - apply step_detect in Hstep as (_ & _ & Hl & _ & Hp & Hq).
@@ -767,13 +767,6 @@ Qed.
 
 Definition owner (g : option peer) : peer := default host g.
 
-Record C02Inv (g : option peer) (blk : list peer) (lw : option value) (s : vstate) : Prop := {
-  c02_wf : vwf s;
-  c02_phase : forall w, peers s w -> g = None \/ g = Some w -> w ∉ blk -> Phase w s;
-  c02_owner : peers s (owner g) /\ owner g ∉ blk;
-  c02_last : pcur s (owner g) = lw
-}.
-
 Lemma peers_step s e s' p : vstep s e = Some s' -> peers s p -> peers s' p.
 Proof.
   intros Hstep [->|Hp]; [left; reflexivity|]. right. destruct e as [q v|q|q|src dst|c].
@@ -797,98 +790,234 @@ Proof.
     + left; right; exact Hp. + apply elem_of_list_singleton in Hp. subst. right. reflexivity.
 Qed.
 
+(* [Calm s]: nobody has written since the last quiescent state: the only messages in flight are the
+   snapshots of the clients that joined since; tokens may be up, nothing is queued anywhere. *)
+Record Calm (s : vstate) : Prop := {
+  calm_idle : forall p, pdirty s p = false /\ poutq s p = [];
+  calm_up : forall c, link s c host = [];
+  calm_down : forall c, c ∈ vconn s -> lastd (pcur s c) (link s host c) = pcur s host
+}.
+
+Lemma calm_step s e s' :
+  vwf s -> Calm s -> no_write e -> vstep s e = Some s' ->
+  Calm s' /\ pcur s' host = pcur s host /\
+  (forall p, link s host p = [] -> e <> VJoin p -> link s' host p = []).
+Proof.
+  intros Hwf [HI HU HDn] Hnw Hstep. destruct e as [p v|p|p|src dst|c]; simpl in Hnw; [contradiction| | | |].
+  - (* detect: at most swallows a token *)
+    apply step_detect in Hstep as (_ & Hcn & Hl & _ & Hp & Hq).
+    assert (Hlk : forall a b, link s' a b = link s a b) by (intros; unfold link; rewrite Hl; reflexivity).
+    assert (Hcur : forall q, pcur s' q = pcur s q).
+    { intros q. unfold pcur. destruct (decide (q = p)) as [->|Hne]; [rewrite Hp; apply detect'_cur|rewrite Hq by exact Hne; reflexivity]. }
+    split; [|split; [apply Hcur|intros q Hq0 _; rewrite Hlk; exact Hq0]]. split.
+    + intros q. unfold pdirty, poutq. destruct (decide (q = p)) as [->|Hne].
+      * rewrite Hp. destruct (HI p) as [Hd Ho]. destruct (detect'_clean _ Hd) as [H1 H2]. rewrite H1, H2. auto.
+      * rewrite Hq by exact Hne. apply HI.
+    + intros c. rewrite Hlk. apply HU.
+    + intros c Hc. rewrite Hcn in Hc. rewrite Hlk, !Hcur. apply HDn, Hc.
+  - (* send: the queue is empty *)
+    apply step_send in Hstep as (_ & Hcn & _ & Hp & Hq & Hl); [|apply wf_nodup, Hwf].
+    destruct (HI p) as [Hdp Hop].
+    assert (Hlk : forall a b, link s' a b = link s a b).
+    { intros a b. rewrite Hl, Hop, app_nil_r. destruct (decide _); reflexivity. }
+    assert (Hcur : forall q, pcur s' q = pcur s q).
+    { intros q. unfold pcur. destruct (decide (q = p)) as [->|Hne]; [rewrite Hp; reflexivity|rewrite Hq by exact Hne; reflexivity]. }
+    split; [|split; [apply Hcur|intros q Hq0 _; rewrite Hlk; exact Hq0]]. split.
+    + intros q. unfold pdirty, poutq. destruct (decide (q = p)) as [->|Hne].
+      * rewrite Hp. simpl. auto.
+      * rewrite Hq by exact Hne. apply HI.
+    + intros c. rewrite Hlk. apply HU.
+    + intros c Hc. rewrite Hcn in Hc. rewrite Hlk, !Hcur. apply HDn, Hc.
+  - (* deliver: a snapshot reaches its joiner *)
+    apply step_deliver in Hstep as (v & rest & Hl0 & _ & Hcn & _ & Hq & Hcase); [|apply wf_nodup, Hwf].
+    assert (Hne0 : link s src dst <> []) by (rewrite Hl0; discriminate).
+    destruct (wf_link s src dst Hwf Hne0) as [[-> Hin]|[-> Hin]]; [|exfalso; apply Hne0, HU].
+    assert (Hdh : dst <> host) by (intros ->; apply (wf_host s Hwf Hin)).
+    assert (Hlk : forall a b, link s' a b = if decide ((a, b) = (host, dst)) then rest else link s a b).
+    { intros a b. destruct Hcase as [(_ & _ & Hl)|(_ & _ & Hl)]; rewrite Hl; [reflexivity|].
+      destruct (decide (dst = host /\ _)) as [[E _]|_]; [contradiction|]. apply app_nil_r. }
+    assert (Hcur : forall q, q <> dst -> pcur s' q = pcur s q).
+    { intros q Hne. unfold pcur. rewrite Hq by exact Hne. reflexivity. }
+    assert (Hcd : pcur s' dst = Some v).
+    { unfold pcur. destruct Hcase as [(Hc & Hp & _)|(_ & Hp & _)]; rewrite Hp; [exact Hc|reflexivity]. }
+    split; [|split; [apply Hcur; congruence|]].
+    + split.
+      * intros q. unfold pdirty, poutq. destruct (decide (q = dst)) as [->|Hne].
+        -- destruct (HI dst) as [Hd Ho]. destruct Hcase as [(_ & Hp & _)|(_ & Hp & _)]; rewrite Hp; simpl; auto.
+        -- rewrite Hq by exact Hne. apply HI.
+      * intros c. rewrite Hlk. destruct (decide ((c, host) = (host, dst))) as [E|_]; [inversion E; congruence|apply HU].
+      * intros c Hc. rewrite Hcn in Hc. rewrite Hlk, (Hcur host) by congruence.
+        pose proof (HDn c Hc) as H1. destruct (decide ((host, c) = (host, dst))) as [E|Hne].
+        -- inversion E; subst c. rewrite Hcd. rewrite Hl0, lastd_cons in H1. exact H1.
+        -- rewrite Hcur by congruence. exact H1.
+    + intros q Hq0 _. rewrite Hlk. destruct (decide ((host, q) = (host, dst))) as [E|_]; [|exact Hq0].
+      inversion E; subst q. congruence.
+  - (* join: one more snapshot *)
+    apply step_join in Hstep as (Hch & Hcn & Hnone & Hcn' & _ & Hq & Hl).
+    assert (Hcur : forall q, pcur s' q = pcur s q) by (intros; unfold pcur; rewrite Hq; reflexivity).
+    assert (Hc0 : pcur s c = None) by (unfold pcur; rewrite (getp_none _ _ Hnone); reflexivity).
+    assert (Hl0 : link s host c = []) by (apply wf_link_nil; [exact Hwf|apply wf_host, Hwf|exact Hcn]).
+    split; [|split; [apply Hcur|]].
+    + split.
+      * intros q. unfold pdirty, poutq. rewrite Hq. apply HI.
+      * intros a. rewrite Hl. destruct (decide ((a, host) = (host, c))) as [E|_]; [inversion E; congruence|apply HU].
+      * intros c' Hc'. rewrite Hcn' in Hc'. rewrite Hl, !Hcur.
+        destruct (decide ((host, c') = (host, c))) as [E|Hne].
+        -- inversion E; subst c'. rewrite Hl0, Hc0. simpl. apply lastd_snapshot.
+        -- apply HDn. apply elem_of_app in Hc' as [H|H]; [exact H|]. apply elem_of_list_singleton in H. congruence.
+    + intros q Hq0 Hne. rewrite Hl. destruct (decide ((host, q) = (host, c))) as [E|_]; [|exact Hq0].
+      inversion E; subst q. exfalso. apply Hne. reflexivity.
+Qed.
+
+(* the first write after a calm period opens the writer's phase, provided nothing travels towards it *)
+Lemma calm_write_phase s p v s1 :
+  vwf s -> Calm s -> link s host p = [] -> vstep s (VWrite p v) = Some s1 -> Phase p s1.
+Proof.
+  intros Hwf [HI HU HDn] Hl0 Hstep. apply step_write in Hstep as (_ & Hcn & Hl & _ & Hp & Hq).
+  assert (Hlk : forall a b, link s1 a b = link s a b) by (intros; unfold link; rewrite Hl; reflexivity).
+  assert (Hd : pdirty s1 p = true) by (unfold pdirty; rewrite Hp; reflexivity).
+  split.
+  - split.
+    + intros q Hne. unfold pdirty, poutq. rewrite Hq by exact Hne. apply HI.
+    + unfold ptoken. rewrite Hp. reflexivity.
+    + intros c. rewrite Hlk. destruct (link s c p) eqn:E; [reflexivity|]. exfalso.
+      assert (Hne : link s c p <> []) by (rewrite E; discriminate).
+      destruct (wf_link s c p Hwf Hne) as [[-> _]|[-> _]]; [congruence|]. apply Hne, HU.
+    + intros c _. rewrite Hlk. apply HU.
+  - split; rewrite ?Hcn.
+    + intros -> Hd'. congruence.
+    + intros -> Hd'. congruence.
+    + intros _ Hd'. congruence.
+    + intros Hph c Hc Hcp. rewrite Hlk. unfold pcur. rewrite !Hq by congruence. apply HDn, Hc.
+    + intros _. unfold pcur. rewrite Hp. simpl. eauto.
+Qed.
+
+Lemma quiescent_calm s x : vquiescent s -> Agree s x -> Calm s.
+Proof.
+  intros Hq Ha. split.
+  - intros p. destruct (quiescent_peer s p Hq) as (? & ? & _). auto.
+  - intros c. apply quiescent_link, Hq.
+  - intros c Hc. rewrite (quiescent_link s host c Hq). simpl. rewrite (Ha c (or_intror Hc)), (Ha host (or_introl eq_refl)). reflexivity.
+Qed.
+
+Lemma calm_quiescent_agree s : vquiescent s -> Calm s -> Agree s (pcur s host).
+Proof.
+  intros Hq HC p [->|Hp]; [reflexivity|].
+  pose proof (calm_down _ HC p Hp) as H. rewrite (quiescent_link s host p Hq) in H. exact H.
+Qed.
+
+(* [g] = the peer that wrote since the last quiescent state; [blk] = the clients that joined since *)
+Record C02Inv (g : option peer) (blk : list peer) (lw : option value) (s : vstate) : Prop := {
+  c02_wf : vwf s;
+  c02_phase : forall w, g = Some w -> Phase w s;
+  c02_calm : g = None -> Calm s /\ forall p, p ∉ blk -> link s host p = [];
+  c02_owner : peers s (owner g);
+  c02_last : pcur s (owner g) = lw
+}.
+
+Lemma c02_agree g blk lw s : C02Inv g blk lw s -> vquiescent s -> Agree s lw.
+Proof.
+  intros [Hwf Hph Hcalm Hop Hl] Hq. rewrite <- Hl. destruct g as [w|]; simpl.
+  - apply phase_quiescent_agree; [exact Hq|]. apply Hph. reflexivity.
+  - apply calm_quiescent_agree; [exact Hq|]. apply Hcalm. reflexivity.
+Qed.
+
 Lemma c02_reset g blk lw s :
   C02Inv g blk lw s ->
   C02Inv (if vquiescentb s then None else g) (if vquiescentb s then [] else blk) lw s.
 Proof.
   intros HI. unfold vquiescentb. destruct (bool_decide (vquiescent s)) eqn:Hq; [|exact HI].
-  apply bool_decide_eq_true in Hq. destruct HI as [Hwf Hph [Hop Hob] Hl].
-  pose proof (phase_quiescent_agree _ _ Hq (Hph (owner g) Hop
-    (match g return g = None \/ g = Some (owner g) with None => or_introl eq_refl | Some w => or_intror eq_refl end) Hob)) as Hag.
-  rewrite Hl in Hag. split.
+  apply bool_decide_eq_true in Hq. pose proof (c02_agree _ _ _ _ HI Hq) as Hag.
+  destruct HI as [Hwf Hph Hcalm Hop Hl]. split.
   - exact Hwf.
-  - intros w Hw _ _. eapply agree_quiescent_phase; eauto.
-  - split; [left; reflexivity|]. apply not_elem_of_nil.
+  - intros w Hw. discriminate.
+  - intros _. split; [eapply quiescent_calm; eauto|]. intros p _. apply quiescent_link, Hq.
+  - left. reflexivity.
   - apply Hag. left. reflexivity.
 Qed.
 
+Lemma c02_step_nonwrite g blk lw s e s1 :
+  C02Inv g blk lw s -> no_write e -> vstep s e = Some s1 ->
+  C02Inv g (match e with VJoin c => c :: blk | _ => blk end) lw s1.
+Proof.
+  intros [Hwf Hph Hcalm Hop Hl] Hnw Hstep. split.
+  - eapply step_wf; eauto.
+  - intros w Hg. eapply phase_step; [exact Hwf|exact (Hph w Hg)| |exact Hstep]. destruct e; simpl in *; try contradiction; exact I.
+  - intros Hg. destruct (Hcalm Hg) as [HC Hb]. destruct (calm_step s e s1 Hwf HC Hnw Hstep) as (HC1 & _ & Hlk).
+    split; [exact HC1|]. intros p Hp. apply Hlk.
+    + apply Hb. destruct e; try exact Hp. apply not_elem_of_cons in Hp. apply Hp.
+    + intros ->. apply not_elem_of_cons in Hp. destruct Hp as [Hp _]. congruence.
+  - eapply peers_step; eauto.
+  - rewrite <- Hl. destruct g as [w|]; simpl.
+    + eapply phase_cur_w; [exact Hwf|exact (proj1 (Hph w eq_refl))|exact Hnw|exact Hstep].
+    + destruct (Hcalm eq_refl) as [HC _]. apply (calm_step s e s1 Hwf HC Hnw Hstep).
+Qed.
+
 Lemma C02_general tr : forall g blk lw s s',
-  C02Inv g blk lw s -> vrun s tr = Some s' -> ds_from g s tr = true -> js_from blk s tr = true ->
+  C02Inv g blk lw s -> vrun s tr = Some s' -> ds_from g s tr = true -> jr_from blk s tr = true ->
   exists g' blk', C02Inv g' blk' (lastd lw (written tr)) s'.
 Proof.
   induction tr as [|e tr IH]; intros g blk lw s s' HI Hrun Hds Hjs.
   - simpl in Hrun. inversion Hrun; subst. exists g, blk. exact HI.
-  - cbn [vrun] in Hrun. cbn [ds_from] in Hds. cbn [js_from] in Hjs.
+  - cbn [vrun] in Hrun. cbn [ds_from] in Hds. cbn [jr_from] in Hjs.
     destruct (vstep s e) as [s1|] eqn:Hstep; [|discriminate].
     apply c02_reset in HI. revert HI Hds Hjs.
     generalize (if vquiescentb s then None else g). generalize (if vquiescentb s then [] else blk).
     clear g blk. intros blk g HI Hds Hjs.
-    destruct HI as [Hwf Hph [Hop Hob] Hl].
-    pose proof (step_wf _ _ _ Hwf Hstep) as Hwf1.
-    assert (Hown : Phase (owner g) s) by (apply Hph; auto; destruct g; [right|left]; reflexivity).
-    destruct e as [p v|p|p|src dst|c].
-    + (* a write: p takes the phase *)
+    destruct e as [p v|p|p|src dst|c];
+      [|cbn [written omap];
+        (eapply IH; [eapply c02_step_nonwrite; [exact HI| |exact Hstep]; exact I|exact Hrun|exact Hds|exact Hjs])..].
+    + (* a write: p takes (or keeps) the phase *)
+      destruct HI as [Hwf Hph Hcalm Hop Hl].
       apply andb_prop in Hds as [Hg Hds]. apply bool_decide_eq_true in Hg.
       apply andb_prop in Hjs as [Hb Hjs]. apply bool_decide_eq_true in Hb.
-      assert (Hpp : peers s p).
-      { apply step_write in Hstep as (Hex & _). apply (wf_exists s p Hwf), Hex. }
-      pose proof (phase_step p s (VWrite p v) s1 Hwf (Hph p Hpp Hg Hb) eq_refl Hstep) as Hp1.
+      assert (Hp1 : Phase p s1).
+      { destruct Hg as [Hg|Hg].
+        - destruct (Hcalm Hg) as [HC Hlb]. eapply calm_write_phase; [exact Hwf|exact HC| |exact Hstep].
+          destruct Hb as [Hb|Hb]; [apply Hlb, Hb|exact Hb].
+        - eapply phase_step; [exact Hwf|exact (Hph p Hg)| |exact Hstep]. reflexivity. }
       change (written (VWrite p v :: tr)) with (v :: written tr). rewrite lastd_cons.
       eapply (IH (Some p) blk); [|exact Hrun|exact Hds|exact Hjs].
-      split; [exact Hwf1| |split; [eapply peers_step; eauto|exact Hb]|].
-      * intros w _ [Hn|Hn] _; [discriminate|]. inversion Hn; subst. exact Hp1.
+      split.
+      * eapply step_wf; eauto.
+      * intros w [= <-]. exact Hp1.
+      * intros [=].
+      * simpl. apply step_write in Hstep as (Hex & Hcn & _). unfold peers. rewrite Hcn. apply (wf_exists s p Hwf), Hex.
       * simpl. apply step_write in Hstep as (_ & _ & _ & _ & Hpv & _). unfold pcur. rewrite Hpv. reflexivity.
-    + cbn [written omap]. eapply (IH g blk); [|exact Hrun|exact Hds|exact Hjs].
-      split; [exact Hwf1| |split; [eapply peers_step; eauto|exact Hob]|].
-      * intros w Hw Hg Hb. destruct (peers_step_inv _ _ _ _ Hstep Hw) as [Hw0|Hx]; [|discriminate].
-        eapply phase_step; [exact Hwf|exact (Hph w Hw0 Hg Hb)| |exact Hstep]; exact I.
-      * rewrite <- Hl. eapply phase_cur_w; [exact Hwf|exact (proj1 Hown)| |exact Hstep]; exact I.
-    + cbn [written omap]. eapply (IH g blk); [|exact Hrun|exact Hds|exact Hjs].
-      split; [exact Hwf1| |split; [eapply peers_step; eauto|exact Hob]|].
-      * intros w Hw Hg Hb. destruct (peers_step_inv _ _ _ _ Hstep Hw) as [Hw0|Hx]; [|discriminate].
-        eapply phase_step; [exact Hwf|exact (Hph w Hw0 Hg Hb)| |exact Hstep]; exact I.
-      * rewrite <- Hl. eapply phase_cur_w; [exact Hwf|exact (proj1 Hown)| |exact Hstep]; exact I.
-    + cbn [written omap]. eapply (IH g blk); [|exact Hrun|exact Hds|exact Hjs].
-      split; [exact Hwf1| |split; [eapply peers_step; eauto|exact Hob]|].
-      * intros w Hw Hg Hb. destruct (peers_step_inv _ _ _ _ Hstep Hw) as [Hw0|Hx]; [|discriminate].
-        eapply phase_step; [exact Hwf|exact (Hph w Hw0 Hg Hb)| |exact Hstep]; exact I.
-      * rewrite <- Hl. eapply phase_cur_w; [exact Hwf|exact (proj1 Hown)| |exact Hstep]; exact I.
-    + (* a join: the joiner is blocked until the next quiescent state *)
-      cbn [written omap]. eapply (IH g (c :: blk)); [|exact Hrun|exact Hds|exact Hjs].
-      pose proof Hstep as Hj. apply step_join in Hj as (Hch & Hcn & _).
-      assert (Hnp : ~ peers s c) by (intros [?|?]; contradiction).
-      split; [exact Hwf1| |split; [eapply peers_step; eauto|]|].
-      * intros w Hw Hg Hb. apply not_elem_of_cons in Hb as [Hwc Hb].
-        destruct (peers_step_inv _ _ _ _ Hstep Hw) as [Hw0|Hx]; [|inversion Hx; congruence].
-        eapply phase_step; [exact Hwf|exact (Hph w Hw0 Hg Hb)| |exact Hstep]; exact I.
-      * apply not_elem_of_cons. split; [|exact Hob]. intros Heq. apply Hnp. rewrite <- Heq. exact Hop.
-      * rewrite <- Hl. eapply phase_cur_w; [exact Hwf|exact (proj1 Hown)| |exact Hstep]; exact I.
 Qed.
 
 Lemma c02_init n : C02Inv None [] None (vinit n).
 Proof.
   split.
   - apply vinit_wf.
-  - intros w Hw _ _. apply (agree_quiescent_phase w _ None (vinit_quiescent n)); [|exact Hw].
-    intros p _. unfold pcur. rewrite vinit_getp. reflexivity.
-  - split; [left; reflexivity|apply not_elem_of_nil].
+  - intros w [=].
+  - intros _. split; [|intros p _; apply vinit_link].
+    apply (quiescent_calm _ None (vinit_quiescent n)). intros p _. unfold pcur. rewrite vinit_getp. reflexivity.
+  - left. reflexivity.
   - unfold pcur. rewrite vinit_getp. reflexivity.
-Qed.
-
-Lemma c02_agree g blk lw s : C02Inv g blk lw s -> vquiescent s -> Agree s lw.
-Proof.
-  intros [Hwf Hph [Hop Hob] Hl] Hq. rewrite <- Hl. apply phase_quiescent_agree; [exact Hq|].
-  apply Hph; auto. destruct g; [right|left]; reflexivity.
 Qed.
 
 Lemma lastd_None_last l : lastd None l = last l.
 Proof. rewrite lastd_last. destruct (last l); reflexivity. Qed.
 
-(* C02: with drain-separated writers (and joiners that do not write before their snapshot has settled),
-   at a quiescent state every peer (host and every connected client) holds the most recent write. *)
+(* [joiners_received] is weaker than the premise [joiners_settled] it replaces *)
+Lemma js_jr_from tr : forall blk s, js_from blk s tr = true -> jr_from blk s tr = true.
+Proof.
+  induction tr as [|e tr IH]; intros blk s H; [reflexivity|]. cbn [js_from jr_from] in *.
+  destruct (vstep s e) as [s1|]; [|reflexivity].
+  destruct e; try (apply IH; exact H).
+  apply andb_prop in H as [H1 H2]. apply bool_decide_eq_true in H1.
+  apply andb_true_intro. split; [apply bool_decide_eq_true; left; exact H1|apply IH; exact H2].
+Qed.
+Lemma joiners_settled_received s tr : joiners_settled s tr -> joiners_received s tr.
+Proof. apply js_jr_from. Qed.
+
+(* C02: with drain-separated writers (and joiners that do not write while their snapshot is still travelling
+   towards them), at a quiescent state every peer (host and every connected client) holds the most recent
+   write.  Before fix e13e196 the second premise had to be [joiners_settled]. *)
 Theorem C02_values_converge n tr s' :
   vrun (vinit n) tr = Some s' ->
-  drain_separated (vinit n) tr -> joiners_settled (vinit n) tr ->
+  drain_separated (vinit n) tr -> joiners_received (vinit n) tr ->
   vquiescent s' ->
   forall p, peers s' p -> pcur s' p = last (written tr).
 Proof.
@@ -917,15 +1046,22 @@ Proof.
   destruct e; try (eapply IH; exact H).
   apply andb_prop in H as [H1 H2]. rewrite H1. simpl. eapply IH; exact H2.
 Qed.
+Lemma jr_from_prefix blk s tr1 tr2 : jr_from blk s (tr1 ++ tr2) = true -> jr_from blk s tr1 = true.
+Proof.
+  revert blk s. induction tr1 as [|e tr1 IH]; intros blk s H; [reflexivity|].
+  cbn [app jr_from] in *. destruct (vstep s e) as [s1|]; [|reflexivity].
+  destruct e; try (eapply IH; exact H).
+  apply andb_prop in H as [H1 H2]. rewrite H1. simpl. eapply IH; exact H2.
+Qed.
 
 Theorem C02_every_quiescent_state n tr1 tr2 s1 :
-  drain_separated (vinit n) (tr1 ++ tr2) -> joiners_settled (vinit n) (tr1 ++ tr2) ->
+  drain_separated (vinit n) (tr1 ++ tr2) -> joiners_received (vinit n) (tr1 ++ tr2) ->
   is_Some (vrun (vinit n) (tr1 ++ tr2)) ->
   vrun (vinit n) tr1 = Some s1 -> vquiescent s1 ->
   forall p, peers s1 p -> pcur s1 p = last (written tr1).
 Proof.
   intros Hds Hjs _ Hrun Hq. eapply C02_values_converge; eauto.
-  - eapply ds_from_prefix; exact Hds. - eapply js_from_prefix; exact Hjs.
+  - eapply ds_from_prefix; exact Hds. - eapply jr_from_prefix; exact Hjs.
 Qed.
 Print Assumptions C02_every_quiescent_state.
 
@@ -937,7 +1073,7 @@ Definition ex_turns : list vevent :=
    VWrite 3 30; VWrite 3 31; VDetect 3; VSend 3; VDeliver 3 0; VDeliver 0 1; VDeliver 0 2;
    VDetect 0; VDetect 1; VDetect 2].
 Example C02_nonvacuous :
-  drain_separated (vinit 2) ex_turns /\ joiners_settled (vinit 2) ex_turns /\
+  drain_separated (vinit 2) ex_turns /\ joiners_settled (vinit 2) ex_turns /\ joiners_received (vinit 2) ex_turns /\
   (fun s => view s [0; 1; 2; 3]) <$> vrun (vinit 2) ex_turns = Some ([Some 31; Some 31; Some 31; Some 31], true).
 Proof. vm_compute. auto. Qed.
 
@@ -950,33 +1086,69 @@ Example C02_conflict_example :
   (fun s => view s [0; 1; 2]) <$> vrun (vinit 2) ex_conflict = Some ([Some 20; Some 20; Some 10], true).
 Proof. vm_compute. auto. Qed.
 
-(* without drain separation: a local write is swallowed with the token (never announced) *)
+(* without drain separation: a local write that lands BEFORE a network apply reaches its peer is
+   overwritten and never announced (the token swallows the change flag it raised).  Since fix e13e196 a
+   write that lands AFTER the apply is announced (second half; before the fix it was swallowed and the
+   run ended quiescent with 10, 10, 99). *)
 Example C02_lost_write_example :
-  let tr := [VWrite 1 10; VDetect 1; VSend 1; VDeliver 1 0; VDeliver 0 2; VWrite 2 99; VDetect 2; VDetect 0] in
-  ds_from None (vinit 2) tr = false /\
-  (fun s => view s [0; 1; 2]) <$> vrun (vinit 2) tr = Some ([Some 10; Some 10; Some 99], true).
-Proof. vm_compute. auto. Qed.
+  let tr := [VWrite 1 10; VDetect 1; VSend 1; VDeliver 1 0; VWrite 2 99; VDeliver 0 2; VDetect 2; VDetect 0] in
+  let tr' := [VWrite 1 10; VDetect 1; VSend 1; VDeliver 1 0; VDeliver 0 2; VWrite 2 99; VDetect 2; VDetect 0;
+              VSend 2; VDeliver 2 0; VDeliver 0 1; VDetect 0; VDetect 1] in
+  ds_from None (vinit 2) tr = false /\ last (written tr) = Some 99 /\
+  (fun s => view s [0; 1; 2]) <$> vrun (vinit 2) tr = Some ([Some 10; Some 10; Some 10], true) /\
+  ds_from None (vinit 2) tr' = false /\
+  (fun s => view s [0; 1; 2]) <$> vrun (vinit 2) tr' = Some ([Some 99; Some 99; Some 99], true).
+Proof. vm_compute. auto 10. Qed.
 
-(* drain separation alone is not enough: a client that writes before its own snapshot has settled
-   loses the write (the snapshot's token swallows it) -- hence [joiners_settled]. *)
+(* S22, fixed by e13e196: a joiner writes after its snapshot has arrived but before its detector has seen
+   the snapshot's token.  Before the fix the token swallowed the write ([C02_join_write_refuted]: quiescent
+   with 5 on the host and 7 on the joiner); now the write clears the token and the history converges.
+   The premise of C02 is satisfied although [joiners_settled] is not. *)
 Definition ex_join_write : list vevent :=
-  [VWrite 0 5; VDetect 0; VSend 0; VDeliver 0 1; VDetect 1; VJoin 2; VDeliver 0 2; VWrite 2 7; VDetect 2].
-Theorem C02_join_write_refuted :
-  exists n tr s' p,
-    vrun (vinit n) tr = Some s' /\ drain_separated (vinit n) tr /\ vquiescent s' /\ peers s' p /\
-    pcur s' p <> last (written tr) /\ ~ joiners_settled (vinit n) tr.
+  [VWrite 0 5; VDetect 0; VSend 0; VDeliver 0 1; VDetect 1; VJoin 2; VDeliver 0 2; VWrite 2 7; VDetect 2;
+   VSend 2; VDeliver 2 0; VDeliver 0 1; VDetect 0; VDetect 1].
+Example C02_join_write_example :
+  drain_separated (vinit 1) ex_join_write /\ joiners_received (vinit 1) ex_join_write /\
+  js_from [] (vinit 1) ex_join_write = false /\
+  (fun s => view s [0; 1; 2]) <$> vrun (vinit 1) ex_join_write = Some ([Some 7; Some 7; Some 7], true) /\
+  (* the old counterexample trace itself: the joiner now holds a queued announcement instead of being idle *)
+  (fun s => (view s [0; 2], poutq s 2)) <$> vrun (vinit 1) (take 9 ex_join_write) = Some (([Some 5; Some 7], false), [7]).
+Proof. vm_compute. auto 10. Qed.
+
+(* the residue of S22: drain separation alone is still not enough.  A client that writes while its snapshot
+   is still travelling towards it conflicts with the snapshot exactly like two concurrent writers: its
+   announcement reaches the host and everybody else, the snapshot overwrites its own value; the run ends
+   quiescent with 7 everywhere except on the joiner, which shows 5 for ever -- hence [joiners_received].
+   (Second witness: if the snapshot arrives before the joiner's detector runs, the write is overwritten and
+   never announced: everybody agrees on 5, the write 7 is lost.) *)
+Definition ex_join_window : list vevent :=
+  [VWrite 0 5; VDetect 0; VSend 0; VDeliver 0 1; VDetect 1; VJoin 2; VWrite 2 7; VDetect 2; VSend 2;
+   VDeliver 0 2; VDeliver 2 0; VDeliver 0 1; VDetect 0; VDetect 1; VDetect 2].
+Definition ex_join_window_lost : list vevent :=
+  [VWrite 0 5; VDetect 0; VSend 0; VDeliver 0 1; VDetect 1; VJoin 2; VWrite 2 7; VDeliver 0 2; VDetect 2].
+Theorem C02_join_window_refuted :
+  exists n tr s' p q,
+    vrun (vinit n) tr = Some s' /\ drain_separated (vinit n) tr /\ vquiescent s' /\ peers s' p /\ peers s' q /\
+    pcur s' p <> last (written tr) /\ pcur s' p <> pcur s' q /\ ~ joiners_received (vinit n) tr.
 Proof.
-  exists 1%nat, ex_join_write.
-  destruct (vrun (vinit 1) ex_join_write) as [s'|] eqn:Hrun; [|vm_compute in Hrun; discriminate].
-  exists s', 0. split; [reflexivity|]. split; [vm_compute; reflexivity|].
-  assert (Hv : view s' [0; 2] = ([Some 5; Some 7], true)).
-  { assert (H : (fun s => view s [0; 2]) <$> vrun (vinit 1) ex_join_write = Some ([Some 5; Some 7], true)) by (vm_compute; reflexivity).
+  exists 1%nat, ex_join_window.
+  destruct (vrun (vinit 1) ex_join_window) as [s'|] eqn:Hrun; [|vm_compute in Hrun; discriminate].
+  exists s', 2, 0. split; [reflexivity|]. split; [vm_compute; reflexivity|].
+  assert (Hv : (view s' [0; 2], vconn s') = (([Some 7; Some 5], true), [1; 2])).
+  { assert (H : (fun s => (view s [0; 2], vconn s)) <$> vrun (vinit 1) ex_join_window = Some (([Some 7; Some 5], true), [1; 2]))
+      by (vm_compute; reflexivity).
     rewrite Hrun in H. simpl in H. congruence. }
-  inversion Hv as [[H0 H2 Hq]]. split; [apply bool_decide_eq_true in Hq; exact Hq|].
-  split; [left; reflexivity|]. split.
-  - rewrite H0. vm_compute. congruence.
-  - unfold joiners_settled. vm_compute. discriminate.
+  inversion Hv as [[H0 H2 Hq Hc]]. split; [apply bool_decide_eq_true in Hq; exact Hq|].
+  split; [right; rewrite Hc; set_solver|]. split; [left; reflexivity|]. split; [|split].
+  - rewrite H2. vm_compute. congruence.
+  - rewrite H2, H0. congruence.
+  - unfold joiners_received. vm_compute. discriminate.
 Qed.
+Example C02_join_window_lost_example :
+  drain_separated (vinit 1) ex_join_window_lost /\ jr_from [] (vinit 1) ex_join_window_lost = false /\
+  last (written ex_join_window_lost) = Some 7 /\
+  (fun s => view s [0; 1; 2]) <$> vrun (vinit 1) ex_join_window_lost = Some ([Some 5; Some 5; Some 5], true).
+Proof. vm_compute. auto. Qed.
 
 (* ================================================================================================
    Part 6: C10 -- a single writer's updates are observed in order, never invented
@@ -1574,7 +1746,7 @@ Print Assumptions join_gets_current_value.
 
 Theorem join_gets_current_value_drain_separated n tr1 c tr2 s' :
   let tr := tr1 ++ VJoin c :: tr2 in
-  vrun (vinit n) tr = Some s' -> drain_separated (vinit n) tr -> joiners_settled (vinit n) tr -> vquiescent s' ->
+  vrun (vinit n) tr = Some s' -> drain_separated (vinit n) tr -> joiners_received (vinit n) tr -> vquiescent s' ->
   c ∈ vconn s' /\ pcur s' c = pcur s' host /\ pcur s' c = last (written tr).
 Proof.
   intros tr Hrun Hds Hjs Hq. destruct (joined_connected _ _ _ _ _ Hrun) as [Hch Hc].
@@ -1766,7 +1938,946 @@ Example traffic_tight :
                         VDetect 0; VDetect 2; VDetect 3; VWrite 1 10; VDetect 1; VSend 1; VDeliver 1 0] = 4%nat.
 Proof. vm_compute. auto. Qed.
 
-Print Assumptions C02_join_write_refuted.
+Print Assumptions C02_join_window_refuted.
 Print Assumptions C10_host_join_refuted.
 Print Assumptions relay_loses_nothing.
 Print Assumptions single_writer_discipline.
+
+(* ================================================================================================
+   Part 9: C09, component part: replication traffic is finite and self-quenching, for ANY history
+   V1 no echo ([armed_only_by_write], [deliver_no_echo], [no_echo]);
+   V2 termination without any premise on the past ([measure_decreases], [exchange_bounded],
+      [no_infinite_exchange], [drain_terminates]);
+   V3 global traffic bound ([traffic_bounded_any], [value_messages_bounded_any_writers],
+      [traffic_self_quenching]);  summary [C09_component];  V4 examples.
+   Definitions (executable): end of Values.v.
+   ================================================================================================ *)
+
+Local Open Scope nat_scope.
+
+(* ---------- sums ---------- *)
+Lemma sum_with_ext {A} (f g : A -> nat) l : (forall x, x ∈ l -> f x = g x) -> sum_with f l = sum_with g l.
+Proof.
+  induction l as [|a l IH]; intros H; simpl; [reflexivity|].
+  rewrite (H a) by left. rewrite IH; [reflexivity|]. intros x Hx. apply H. right. exact Hx.
+Qed.
+Lemma sum_with_le {A} (f g : A -> nat) l : (forall x, x ∈ l -> f x <= g x) -> sum_with f l <= sum_with g l.
+Proof.
+  induction l as [|a l IH]; intros H; simpl; [lia|].
+  pose proof (H a ltac:(left)) as Ha. assert (Hl : sum_with f l <= sum_with g l).
+  { apply IH. intros x Hx. apply H. right. exact Hx. } lia.
+Qed.
+Lemma sum_with_upd {A} (f g : A -> nat) l p :
+  NoDup l -> p ∈ l -> (forall x, x ∈ l -> x <> p -> g x = f x) -> sum_with g l + f p = sum_with f l + g p.
+Proof.
+  intros Hnd. induction Hnd as [|a l Hnotin Hnd IH]; intros Hin Hext; [inversion Hin|]. simpl.
+  apply elem_of_cons in Hin as [->|Hin].
+  - rewrite (sum_with_ext g f l); [lia|]. intros x Hx. apply Hext; [right; exact Hx|]. intros ->. contradiction.
+  - rewrite (Hext a) by (try left; intros ->; contradiction).
+    assert (H : sum_with g l + f p = sum_with f l + g p).
+    { apply IH; [exact Hin|]. intros x Hx Hne. apply Hext; [right; exact Hx|exact Hne]. }
+    lia.
+Qed.
+Lemma sum_with_plus {A} (f g : A -> nat) l : sum_with (fun x => f x + g x) l = sum_with f l + sum_with g l.
+Proof. induction l as [|a l IH]; simpl; [reflexivity|]. rewrite IH. lia. Qed.
+Lemma sum_with_const {A} k (l : list A) : sum_with (fun _ => k) l = length l * k.
+Proof. induction l as [|a l IH]; simpl; [reflexivity|]. rewrite IH. lia. Qed.
+Lemma sum_with_snoc {A} (f : A -> nat) l a : sum_with f (l ++ [a]) = sum_with f l + f a.
+Proof. induction l as [|b l IH]; simpl; [lia|]. rewrite IH. lia. Qed.
+Lemma sum_with_zero {A} (f : A -> nat) l : (forall x, x ∈ l -> f x = 0) -> sum_with f l = 0.
+Proof. intros H. rewrite (sum_with_ext f (fun _ => 0) l H). rewrite sum_with_const. lia. Qed.
+
+(* ---------- the peer record after one step, no well-formedness needed ---------- *)
+Lemma step_getp s e s' q :
+  vstep s e = Some s' ->
+  getp s' q =
+    match e with
+    | VWrite p v => if decide (q = p) then VPeer (Some v) true false (poutq s p) else getp s q
+    | VDetect p => if decide (q = p) then detect' (getp s p) else getp s q
+    | VSend p => if decide (q = p) then VPeer (pcur s p) (pdirty s p) (ptoken s p) [] else getp s q
+    | VDeliver src dst =>
+        if decide (q = dst) then
+          match link s src dst with
+          | v :: _ => if bool_decide (pcur s dst = Some v) then getp s dst
+                      else VPeer (Some v) (pdirty s dst) true (poutq s dst)
+          | [] => getp s dst
+          end
+        else getp s q
+    | VJoin _ => getp s q
+    end.
+Proof.
+  intros Hstep. destruct e as [p v|p|p|src dst|c].
+  - apply step_write in Hstep as (_ & _ & _ & _ & Hp & Hq).
+    destruct (decide (q = p)) as [->|Hne]; [exact Hp|apply Hq, Hne].
+  - apply step_detect in Hstep as (_ & _ & _ & _ & Hp & Hq).
+    destruct (decide (q = p)) as [->|Hne]; [exact Hp|apply Hq, Hne].
+  - simpl in Hstep. destruct (vp s !! p) as [x|] eqn:Hx; [|discriminate].
+    unfold pcur, pdirty, ptoken. rewrite (getp_exists _ _ _ Hx).
+    destruct (outq x) as [|v0 q0] eqn:Hq; injection Hstep as <-.
+    + destruct (decide (q = p)) as [->|Hne]; [|reflexivity].
+      rewrite (getp_exists _ _ _ Hx). destruct x; simpl in *; subst; reflexivity.
+    + destruct (decide (q = p)) as [->|Hne]; [apply getp_insert|].
+      destruct s; simpl. rewrite getp_insert_ne by exact Hne. reflexivity.
+  - simpl in Hstep. destruct (link s src dst) as [|v rest] eqn:Hl; [discriminate|].
+    destruct (vp s !! dst) as [x|] eqn:Hx; [|discriminate].
+    unfold pcur, pdirty, poutq. rewrite (getp_exists _ _ _ Hx).
+    destruct (bool_decide (cur x = Some v)) eqn:Hc; injection Hstep as <-.
+    + destruct (decide (q = dst)) as [->|Hne]; [|reflexivity].
+      unfold getp; simpl; rewrite Hx; reflexivity.
+    + destruct (decide (q = dst)) as [->|Hne]; [apply getp_insert|].
+      destruct s; simpl. rewrite getp_insert_ne by exact Hne. reflexivity.
+  - apply step_join in Hstep as (_ & _ & _ & _ & _ & Hg & _). apply Hg.
+Qed.
+
+Lemma step_conn s e s' :
+  vstep s e = Some s' -> vconn s' = match e with VJoin c => vconn s ++ [c] | _ => vconn s end.
+Proof.
+  intros Hstep. destruct e as [p v|p|p|src dst|c]; simpl in Hstep.
+  - destruct (vp s !! p); [|discriminate]. injection Hstep as <-. reflexivity.
+  - destruct (vp s !! p) as [x|]; [|discriminate]. destruct (dirty x || token x); injection Hstep as <-; reflexivity.
+  - destruct (vp s !! p) as [x|]; [|discriminate]. destruct (outq x); injection Hstep as <-; reflexivity.
+  - destruct (link s src dst); [discriminate|]. destruct (vp s !! dst) as [x|]; [|discriminate].
+    destruct (bool_decide _); injection Hstep as <-; reflexivity.
+  - apply step_join in Hstep as (_ & _ & _ & H & _). exact H.
+Qed.
+
+(* ---------- V1: no echo ---------- *)
+Lemma armedx_outq x : armedx x = false -> outq x = [].
+Proof. unfold armedx. destruct (outq x); [reflexivity|discriminate]. Qed.
+
+Lemma armed_step s e s' p :
+  vstep s e = Some s' -> varmed s' p = true -> varmed s p = true \/ exists v, e = VWrite p v.
+Proof.
+  intros Hstep. unfold varmed. rewrite (step_getp s e s' p Hstep).
+  destruct e as [q v|q|q|src dst|c]; try (destruct (decide (p = q)) as [->|Hne]); auto.
+  - right. eauto.
+  - intros H. left. revert H. unfold detect', vdetect, armedx.
+    destruct (getp s q) as [c d t o]; simpl. destruct d, t; simpl; auto.
+    intros _. apply orb_true_r.
+  - unfold armedx, pdirty, ptoken; simpl. intros ->. left. apply orb_true_r.
+  - destruct (decide (p = dst)) as [->|Hne]; auto.
+    destruct (link s src dst) as [|v rest]; auto. destruct (bool_decide _); auto.
+    unfold armedx, pdirty, poutq; simpl. rewrite andb_false_r, orb_false_r. intros ->. left. reflexivity.
+Qed.
+
+(* [varmed] is raised by nothing but a write of that very peer *)
+Theorem armed_only_by_write s e s' p :
+  vstep s e = Some s' -> varmed s p = false -> varmed s' p = true -> exists v, e = VWrite p v.
+Proof.
+  intros Hstep Hu Ha. destruct (armed_step s e s' p Hstep Ha) as [H|H]; [congruence|exact H].
+Qed.
+Print Assumptions armed_only_by_write.
+
+(* ... and (since fix e13e196: a write clears the token) EVERY write arms its peer: no write is silently
+   dropped at the writer; it can only be overtaken by a network apply that lands before the detector runs
+   ([deliver_disarms]) *)
+Theorem write_arms s p v s' : vstep s (VWrite p v) = Some s' -> varmed s' p = true.
+Proof.
+  intros Hstep. unfold varmed. rewrite (step_getp _ _ _ p Hstep). destruct (decide (p = p)) as [_|?]; [|congruence].
+  unfold armedx. simpl. apply orb_true_r.
+Qed.
+Print Assumptions write_arms.
+
+Definition not_write_of (p : peer) (e : vevent) : Prop := match e with VWrite q _ => q <> p | _ => True end.
+
+Lemma unarmed_run p tr : forall s s',
+  varmed s p = false -> Forall (not_write_of p) tr -> vrun s tr = Some s' -> varmed s' p = false.
+Proof.
+  induction tr as [|e tr IH]; intros s s' Hu Hnw Hrun; simpl in Hrun.
+  - congruence.
+  - destruct (vstep s e) as [s1|] eqn:Hstep; [|discriminate]. apply Forall_cons in Hnw as [He Hnw].
+    apply (IH s1 s'); [|exact Hnw|exact Hrun].
+    destruct (varmed s1 p) eqn:Ha; [|reflexivity].
+    destruct (armed_only_by_write s e s1 p Hstep Hu Ha) as [v ->]. simpl in He. congruence.
+Qed.
+
+Lemma unarmed_outq s p : varmed s p = false -> poutq s p = [].
+Proof. apply armedx_outq. Qed.
+
+Lemma unarmed_send_nothing s p : varmed s p = false -> sent_by s (VSend p) = 0.
+Proof. intros H. simpl. rewrite (unarmed_outq s p H). reflexivity. Qed.
+
+Lemma send_noop s p : is_Some (vp s !! p) -> poutq s p = [] -> vstep s (VSend p) = Some s.
+Proof.
+  intros [x Hx] Hq. unfold poutq in Hq. rewrite (getp_exists _ _ _ Hx) in Hq. simpl. rewrite Hx, Hq. reflexivity.
+Qed.
+
+(* an unarmed peer that handles an update and then runs its detector and its send emits nothing:
+   the update is not echoed *)
+Theorem deliver_no_echo s src dst s1 s2 :
+  vstep s (VDeliver src dst) = Some s1 -> varmed s dst = false ->
+  vstep s1 (VDetect dst) = Some s2 ->
+  varmed s1 dst = false /\ varmed s2 dst = false /\ poutq s2 dst = [] /\
+  sent_by s2 (VSend dst) = 0 /\ vstep s2 (VSend dst) = Some s2.
+Proof.
+  intros H1 Hu H2.
+  assert (Hu1 : varmed s1 dst = false).
+  { apply (unarmed_run dst [VDeliver src dst] s s1 Hu); [repeat constructor|]. cbn [vrun]. rewrite H1. reflexivity. }
+  assert (Hu2 : varmed s2 dst = false).
+  { apply (unarmed_run dst [VDetect dst] s1 s2 Hu1); [repeat constructor|]. cbn [vrun]. rewrite H2. reflexivity. }
+  split; [exact Hu1|]. split; [exact Hu2|]. split; [apply unarmed_outq, Hu2|]. split; [apply unarmed_send_nothing, Hu2|].
+  apply send_noop; [|apply unarmed_outq, Hu2].
+  apply step_detect in H2 as (Hex & _ & _ & He & _ & _). apply He. exact Hex.
+Qed.
+Print Assumptions deliver_no_echo.
+
+(* the converse: an armed peer does emit (so [varmed] is exactly "will announce unless a delivery interferes") *)
+Lemma armed_emits s p s1 :
+  varmed s p = true -> is_Some (pcur s p) -> vstep s (VDetect p) = Some s1 ->
+  poutq s1 p <> [] /\ sent_by s1 (VSend p) = length (poutq s1 p) * (if (p =? host)%N then length (vconn s1) else 1).
+Proof.
+  intros Ha [v Hv] Hstep. split; [|reflexivity].
+  unfold poutq. rewrite (step_getp _ _ _ p Hstep). destruct (decide (p = p)) as [_|?]; [|congruence].
+  revert Ha Hv. unfold varmed, pcur, armedx, detect', vdetect. destruct (getp s p) as [c d t o]; simpl.
+  intros Ha ->. destruct o as [|v0 o]; simpl in *.
+  - apply andb_true_iff in Ha as [-> Ht]. apply negb_true_iff in Ht. subst t. simpl. discriminate.
+  - destruct d, t; simpl; discriminate.
+Qed.
+
+Definition unarmed (s : vstate) : Prop := forall p, varmed s p = false.
+
+Definition relay_or_snapshot (e : vevent) : Prop :=
+  match e with VDeliver _ dst => dst = host | VJoin _ => True | _ => False end.
+
+(* from a state where nobody is armed, as long as nobody writes: nobody becomes armed, every queue stays
+   empty in every state visited (no detector queues anything, no send emits anything), and the only events
+   that hand messages to the network are the host's relays (and the snapshots of joins) *)
+Theorem no_echo tr : forall s s',
+  unarmed s -> Forall no_write tr -> vrun s tr = Some s' ->
+  unarmed s' /\
+  Forall (fun si => forall p, poutq si p = []) (vstates s tr) /\
+  Forall relay_or_snapshot (emitters s tr).
+Proof.
+  induction tr as [|e tr IH]; intros s s' Hu Hnw Hrun.
+  - simpl in Hrun. injection Hrun as <-. split; [exact Hu|]. split.
+    + simpl. constructor; [|constructor]. intros p. apply unarmed_outq, Hu.
+    + constructor.
+  - cbn [vrun] in Hrun. cbn [vstates emitters]. destruct (vstep s e) as [s1|] eqn:Hstep; [|discriminate].
+    apply Forall_cons in Hnw as [He Hnw].
+    assert (Hu1 : unarmed s1).
+    { intros p. destruct (varmed s1 p) eqn:Ha; [|reflexivity].
+      destruct (armed_only_by_write s e s1 p Hstep (Hu p) Ha) as [v ->]. simpl in He. contradiction. }
+    destruct (IH s1 s' Hu1 Hnw Hrun) as (Hu' & Hq & Hem).
+    split; [exact Hu'|]. split.
+    + destruct tr as [|e2 tr]; simpl in Hq |- *.
+      * constructor; [intros p; apply unarmed_outq, Hu|exact Hq].
+      * constructor; [intros p; apply unarmed_outq, Hu|exact Hq].
+    + apply Forall_app. split; [|exact Hem].
+      destruct (sent_by s e) eqn:Hsb; [constructor|]. constructor; [|constructor].
+      destruct e as [p v|p|p|src dst|c]; simpl in *; try discriminate; try contradiction.
+      * rewrite (unarmed_outq s p (Hu p)) in Hsb. discriminate.
+      * destruct (link s src dst); [discriminate|]. destruct (bool_decide _); [discriminate|].
+        destruct (dst =? host)%N eqn:E; [apply N.eqb_eq in E; exact E|discriminate].
+      * exact I.
+Qed.
+Print Assumptions no_echo.
+
+(* without joins: the only emitters are relays *)
+Corollary no_echo_plain tr s s' :
+  unarmed s -> Forall plain tr -> vrun s tr = Some s' ->
+  unarmed s' /\ Forall (fun si => forall p, poutq si p = []) (vstates s tr) /\
+  Forall (fun e => exists src, e = VDeliver src host) (emitters s tr).
+Proof.
+  intros Hu Hpl Hrun.
+  assert (Hnw : Forall no_write tr).
+  { eapply Forall_impl; [exact Hpl|]. intros e He. destruct e; simpl in *; auto. }
+  destruct (no_echo tr s s' Hu Hnw Hrun) as (Hu' & Hq & Hem). split; [exact Hu'|]. split; [exact Hq|].
+  assert (Hsub : forall e, e ∈ emitters s tr -> plain e).
+  { clear -Hpl. revert s. induction Hpl as [|e tr He _ IH]; intros s x Hx; simpl in Hx; [inversion Hx|].
+    destruct (vstep s e) as [s1|]; [|inversion Hx]. apply elem_of_app in Hx as [Hx|Hx]; [|eapply IH; exact Hx].
+    destruct (sent_by s e); [inversion Hx|]. apply elem_of_list_singleton in Hx. subst. exact He. }
+  apply Forall_forall. intros e Hin. pose proof (Hsub e Hin) as Hp.
+  rewrite Forall_forall in Hem. specialize (Hem e Hin).
+  destruct e as [p v|p|p|src dst|c]; simpl in *; try contradiction. subst. eauto.
+Qed.
+
+(* ---------- V2: termination ---------- *)
+
+Definition psum (F : peer -> vpeer -> nat) (s : vstate) : nat := sum_with (fun p => F p (getp s p)) (host :: vconn s).
+
+Lemma wf_nodup_all s : vwf s -> NoDup (host :: vconn s).
+Proof. intros Hwf. apply NoDup_cons. split; [apply wf_host, Hwf|apply wf_nodup, Hwf]. Qed.
+
+Lemma peers_all s p : peers s p <-> p ∈ host :: vconn s.
+Proof. unfold peers. rewrite elem_of_cons. reflexivity. Qed.
+
+Lemma psum_upd F s s' p :
+  vwf s -> peers s p -> vconn s' = vconn s -> (forall q, q <> p -> getp s' q = getp s q) ->
+  psum F s' + F p (getp s p) = psum F s + F p (getp s' p).
+Proof.
+  intros Hwf Hp Hc Hq. unfold psum. rewrite Hc.
+  apply (sum_with_upd (fun q => F q (getp s q)) (fun q => F q (getp s' q))).
+  - apply wf_nodup_all, Hwf.
+  - apply peers_all, Hp.
+  - intros x _ Hne. rewrite Hq by exact Hne. reflexivity.
+Qed.
+
+Lemma psum_same F s s' :
+  vconn s' = vconn s -> (forall q, getp s' q = getp s q) -> psum F s' = psum F s.
+Proof. intros Hc Hq. unfold psum. rewrite Hc. apply sum_with_ext. intros x _. rewrite Hq. reflexivity. Qed.
+
+Lemma link_sum_same (f : vstate -> peer -> list value) s s' :
+  vconn s' = vconn s -> (forall c, c ∈ vconn s -> f s' c = f s c) ->
+  sum_with (fun c => length (f s' c)) (vconn s') = sum_with (fun c => length (f s c)) (vconn s).
+Proof. intros Hc H. rewrite Hc. apply sum_with_ext. intros x Hx. rewrite H by exact Hx. reflexivity. Qed.
+
+Lemma down_same s s' :
+  vconn s' = vconn s -> (forall c, c ∈ vconn s -> link s' host c = link s host c) -> down_msgs s' = down_msgs s.
+Proof. intros Hc H. unfold down_msgs. apply (link_sum_same (fun s c => link s host c)); assumption. Qed.
+Lemma up_same s s' :
+  vconn s' = vconn s -> (forall c, c ∈ vconn s -> link s' c host = link s c host) -> up_msgs s' = up_msgs s.
+Proof. intros Hc H. unfold up_msgs. apply (link_sum_same (fun s c => link s c host)); assumption. Qed.
+
+Lemma down_upd s s' c :
+  vwf s -> c ∈ vconn s -> vconn s' = vconn s ->
+  (forall c', c' ∈ vconn s -> c' <> c -> link s' host c' = link s host c') ->
+  down_msgs s' + length (link s host c) = down_msgs s + length (link s' host c).
+Proof.
+  intros Hwf Hin Hc H. unfold down_msgs. rewrite Hc.
+  apply (sum_with_upd (fun q => length (link s host q)) (fun q => length (link s' host q))).
+  - apply wf_nodup, Hwf.
+  - exact Hin.
+  - intros x Hx Hne. rewrite H by assumption. reflexivity.
+Qed.
+Lemma up_upd s s' c :
+  vwf s -> c ∈ vconn s -> vconn s' = vconn s ->
+  (forall c', c' ∈ vconn s -> c' <> c -> link s' c' host = link s c' host) ->
+  up_msgs s' + length (link s c host) = up_msgs s + length (link s' c host).
+Proof.
+  intros Hwf Hin Hc H. unfold up_msgs. rewrite Hc.
+  apply (sum_with_upd (fun q => length (link s q host)) (fun q => length (link s' q host))).
+  - apply wf_nodup, Hwf.
+  - exact Hin.
+  - intros x Hx Hne. rewrite H by assumption. reflexivity.
+Qed.
+
+Lemma vmeasure_eq s :
+  vmeasure s = psum (peer_cost (length (vconn s))) s + 2 * down_msgs s + (2 * length (vconn s) + 2) * up_msgs s.
+Proof. reflexivity. Qed.
+
+(* peer costs *)
+Lemma qcost_pos n p : 1 <= qcost n p.
+Proof. unfold qcost. destruct (p =? host)%N; lia. Qed.
+
+Lemma detect_cost n p x : dirty x || token x = true -> peer_cost n p (detect' x) + 1 <= peer_cost n p x.
+Proof.
+  intros Hf. unfold detect'. rewrite Hf. unfold vdetect, peer_cost. destruct x as [c d t o]; simpl in *.
+  destruct t; simpl.
+  - rewrite orb_true_r. rewrite andb_false_r. lia.
+  - rewrite orb_false_r in Hf. subst d. simpl. rewrite app_length. destruct c; simpl; nia.
+Qed.
+
+Lemma apply_cost n p x v : peer_cost n p (VPeer (Some v) (dirty x) true (outq x)) <= peer_cost n p x + 1.
+Proof.
+  unfold peer_cost. simpl. rewrite orb_true_r, andb_false_r. lia.
+Qed.
+
+Lemma send_cost n p x : peer_cost n p (VPeer (cur x) (dirty x) (token x) []) + length (outq x) * qcost n p = peer_cost n p x.
+Proof. unfold peer_cost. simpl. lia. Qed.
+
+Lemma wf_client_ne_host s c : vwf s -> c ∈ vconn s -> c <> host.
+Proof. intros Hwf Hin ->. exact (wf_host s Hwf Hin). Qed.
+
+Lemma peers_exists s p : vwf s -> is_Some (vp s !! p) -> peers s p.
+Proof. intros Hwf H. apply (wf_exists s p Hwf). exact H. Qed.
+
+(* every effective plain event strictly decreases the measure *)
+Theorem measure_decreases s e s' :
+  vwf s -> effective s e = true -> vstep s e = Some s' -> vmeasure s' < vmeasure s.
+Proof.
+  intros Hwf Heff Hstep. pose proof (step_conn s e s' Hstep) as Hconn.
+  destruct e as [p v|p|p|src dst|c]; simpl in Heff; try discriminate.
+  - (* detect *)
+    apply step_detect in Hstep as (Hex & Hc & Hl & _ & Hp & Hq).
+    rewrite !vmeasure_eq, Hc.
+    assert (Hd : down_msgs s' = down_msgs s) by (apply down_same; [exact Hc|intros; unfold link; rewrite Hl; reflexivity]).
+    assert (Hu : up_msgs s' = up_msgs s) by (apply up_same; [exact Hc|intros; unfold link; rewrite Hl; reflexivity]).
+    pose proof (psum_upd (peer_cost (length (vconn s))) s s' p Hwf (peers_exists s p Hwf Hex) Hc Hq) as HP.
+    rewrite Hp in HP. pose proof (detect_cost (length (vconn s)) p (getp s p) Heff) as Hcost.
+    rewrite Hd, Hu. lia.
+  - (* send *)
+    apply step_send in Hstep as (Hex & Hc & _ & Hp & Hq & Hl); [|apply wf_nodup, Hwf].
+    rewrite !vmeasure_eq, Hc. set (n := length (vconn s)).
+    pose proof (psum_upd (peer_cost n) s s' p Hwf (peers_exists s p Hwf Hex) Hc Hq) as HP.
+    rewrite Hp in HP. pose proof (send_cost n p (getp s p)) as Hcost.
+    fold (pcur s p) (pdirty s p) (ptoken s p) (poutq s p) in Hcost.
+    assert (Hlen : 1 <= length (poutq s p)) by (destruct (poutq s p); [discriminate|simpl; lia]).
+    destruct (decide (p = host)) as [->|Hph].
+    + (* the host: one copy per client *)
+      assert (Hu : up_msgs s' = up_msgs s).
+      { apply up_same; [exact Hc|]. intros c Hin. rewrite Hl.
+        destruct (decide (c = host /\ _)) as [[E _]|_]; [|reflexivity].
+        exfalso. exact (wf_client_ne_host s c Hwf Hin E). }
+      assert (Hd : down_msgs s' = down_msgs s + n * length (poutq s host)).
+      { unfold down_msgs. rewrite Hc.
+        rewrite (sum_with_ext _ (fun c => length (link s host c) + length (poutq s host))).
+        - rewrite sum_with_plus, sum_with_const. fold n. lia.
+        - intros c Hin. rewrite Hl. destruct (decide (host = host /\ c ∈ dsts_of s host)) as [_|Hn].
+          + apply app_length.
+          + exfalso. apply Hn. split; [reflexivity|]. exact Hin. }
+      rewrite Hu, Hd. unfold qcost in Hcost. change (host =? host)%N with true in Hcost. cbv iota in Hcost. nia.
+    + (* a client: one message to the host *)
+      assert (Hin : p ∈ vconn s).
+      { destruct (peers_exists s p Hwf Hex) as [?|?]; [contradiction|assumption]. }
+      assert (Hd : down_msgs s' = down_msgs s).
+      { apply down_same; [exact Hc|]. intros c _. rewrite Hl.
+        destruct (decide (host = p /\ _)) as [[E _]|_]; [congruence|reflexivity]. }
+      assert (Hu : up_msgs s' + length (link s p host) = up_msgs s + length (link s' p host)).
+      { apply up_upd; [exact Hwf|exact Hin|exact Hc|]. intros c' _ Hne. rewrite Hl.
+        destruct (decide (c' = p /\ _)) as [[E _]|_]; [contradiction|reflexivity]. }
+      assert (Hlp : length (link s' p host) = length (link s p host) + length (poutq s p)).
+      { rewrite Hl. destruct (decide (p = p /\ host ∈ dsts_of s p)) as [_|Hn]; [apply app_length|].
+        exfalso. apply Hn. split; [reflexivity|]. unfold dsts_of.
+        destruct (p =? host)%N eqn:E; [apply N.eqb_eq in E; contradiction|]. apply elem_of_list_singleton. reflexivity. }
+      rewrite Hd. unfold qcost in Hcost.
+      destruct (p =? host)%N eqn:E; [apply N.eqb_eq in E; contradiction|]. nia.
+  - (* deliver *)
+    apply step_deliver in Hstep as (v & rest & Hl0 & Hex & Hc & _ & Hq & Hcase); [|apply wf_nodup, Hwf].
+    rewrite !vmeasure_eq, Hc. set (n := length (vconn s)).
+    assert (Hne0 : link s src dst <> []) by (rewrite Hl0; discriminate).
+    pose proof (psum_upd (peer_cost n) s s' dst Hwf (peers_exists s dst Hwf Hex) Hc Hq) as HP.
+    assert (HPle : psum (peer_cost n) s' <= psum (peer_cost n) s + 1).
+    { destruct Hcase as [(_ & Hp & _)|(_ & Hp & _)]; rewrite Hp in HP; [lia|].
+      pose proof (apply_cost n dst (getp s dst) v) as Hcost.
+      fold (pdirty s dst) (poutq s dst) in Hcost. lia. }
+    destruct (wf_link s src dst Hwf Hne0) as [[-> Hin]|[-> Hin]].
+    + (* host -> client: no relay *)
+      pose proof (wf_client_ne_host s dst Hwf Hin) as Hdh.
+      assert (Hlk : forall a b, link s' a b = if decide ((a, b) = (host, dst)) then rest else link s a b).
+      { destruct Hcase as [(_ & _ & Hl)|(_ & _ & Hl)]; [exact Hl|]. intros a b. rewrite Hl.
+        destruct (decide (dst = host /\ _)) as [[E _]|_]; [contradiction|]. apply app_nil_r. }
+      assert (Hu : up_msgs s' = up_msgs s).
+      { apply up_same; [exact Hc|]. intros c Hcin. rewrite Hlk.
+        destruct (decide ((c, host) = (host, dst))) as [E|_]; [|reflexivity]. inversion E; subst. contradiction. }
+      assert (Hd : down_msgs s' + length (link s host dst) = down_msgs s + length (link s' host dst)).
+      { apply down_upd; [exact Hwf|exact Hin|exact Hc|]. intros c' _ Hne. rewrite Hlk.
+        destruct (decide ((host, c') = (host, dst))) as [E|_]; [|reflexivity]. inversion E; subst. contradiction. }
+      rewrite Hlk in Hd. destruct (decide ((host, dst) = (host, dst))) as [_|?]; [|congruence].
+      rewrite Hl0 in Hd. simpl in Hd. rewrite Hu. lia.
+    + (* client -> host: at most n relayed messages *)
+      pose proof (wf_client_ne_host s src Hwf Hin) as Hsh.
+      assert (Hup : forall c, link s' c host = if decide (c = src) then rest else link s c host).
+      { intros c. destruct Hcase as [(_ & _ & Hl)|(_ & _ & Hl)]; rewrite Hl.
+        - destruct (decide ((c, host) = (src, host))) as [E|Hn]; destruct (decide (c = src)) as [E'|Hn']; try reflexivity; congruence.
+        - destruct (decide (host = host /\ c = host /\ _)) as [(_ & E & Hoth)|_].
+          + apply elem_of_others in Hoth as [_ Hoth]. exfalso. exact (wf_host s Hwf Hoth).
+          + rewrite app_nil_r.
+            destruct (decide ((c, host) = (src, host))) as [E|Hn]; destruct (decide (c = src)) as [E'|Hn']; try reflexivity; congruence. }
+      assert (Hu : up_msgs s' + length (link s src host) = up_msgs s + length (link s' src host)).
+      { apply up_upd; [exact Hwf|exact Hin|exact Hc|]. intros c' _ Hne. rewrite Hup.
+        destruct (decide (c' = src)); [contradiction|reflexivity]. }
+      rewrite Hup in Hu. destruct (decide (src = src)) as [_|?]; [|congruence]. rewrite Hl0 in Hu. simpl in Hu.
+      assert (Hd : down_msgs s' <= down_msgs s + n).
+      { unfold down_msgs. rewrite Hc.
+        etransitivity; [apply (sum_with_le _ (fun c => length (link s host c) + 1))|].
+        - intros c Hcin. destruct Hcase as [(_ & _ & Hl)|(_ & _ & Hl)]; rewrite Hl.
+          + destruct (decide ((host, c) = (src, host))) as [E|_]; [inversion E; congruence|]. lia.
+          + destruct (decide ((host, c) = (src, host))) as [E|_]; [inversion E; congruence|].
+            rewrite app_length. destruct (decide _); simpl; lia.
+        - rewrite sum_with_plus, sum_with_const. fold n. lia. }
+      nia.
+Qed.
+Print Assumptions measure_decreases.
+
+Lemma effective_run_cons s e tr :
+  effective_run s (e :: tr) = true <-> effective s e = true /\ exists s1, vstep s e = Some s1 /\ effective_run s1 tr = true.
+Proof.
+  cbn [effective_run]. rewrite andb_true_iff. destruct (vstep s e) as [s1|].
+  - split; [intros [H1 H2]; eauto|]. intros [H1 (s2 & [= <-] & H2)]. auto.
+  - split; [intros [_ ?]; discriminate|]. intros [_ (s2 & ? & _)]. discriminate.
+Qed.
+
+(* a run of effective plain events is no longer than the measure of its first state *)
+Theorem exchange_bounded tr : forall s, vwf s -> effective_run s tr = true -> length tr <= vmeasure s.
+Proof.
+  induction tr as [|e tr IH]; intros s Hwf Hrun; simpl length; [lia|].
+  apply effective_run_cons in Hrun as (Heff & s1 & Hstep & Hrun).
+  pose proof (measure_decreases s e s1 Hwf Heff Hstep) as Hlt.
+  pose proof (IH s1 (step_wf s e s1 Hwf Hstep) Hrun). lia.
+Qed.
+Print Assumptions exchange_bounded.
+
+(* there is no infinite sequence of effective plain events, from any well-formed state, whatever its past *)
+Theorem no_infinite_exchange (st : nat -> vstate) (ev : nat -> vevent) :
+  vwf (st 0) ->
+  ~ (forall i, effective (st i) (ev i) = true /\ vstep (st i) (ev i) = Some (st (S i))).
+Proof.
+  intros Hwf Hinf.
+  assert (Hrun : forall k i, effective_run (st i) (ev <$> seq i k) = true).
+  { induction k as [|k IH]; intros i; [reflexivity|]. simpl seq. rewrite fmap_cons. apply effective_run_cons.
+    destruct (Hinf i) as [He Hs]. split; [exact He|]. exists (st (S i)). split; [exact Hs|apply IH]. }
+  pose proof (exchange_bounded _ (st 0) Hwf (Hrun (S (vmeasure (st 0))) 0)) as Hle.
+  rewrite fmap_length, seq_length in Hle. lia.
+Qed.
+Print Assumptions no_infinite_exchange.
+
+(* --- draining --- *)
+Lemma first_some_Some {A B} (f : A -> option B) l y : first_some f l = Some y -> exists x, x ∈ l /\ f x = Some y.
+Proof.
+  induction l as [|a l IH]; simpl; [discriminate|]. destruct (f a) as [b|] eqn:Hfa.
+  - intros [= <-]. exists a. split; [left|exact Hfa].
+  - intros H. destruct (IH H) as (x & Hx & Hfx). exists x. split; [right; exact Hx|exact Hfx].
+Qed.
+Lemma first_some_None {A B} (f : A -> option B) l : first_some f l = None -> forall x, x ∈ l -> f x = None.
+Proof.
+  induction l as [|a l IH]; simpl; intros H x Hx; [inversion Hx|]. destruct (f a) as [b|] eqn:Hfa; [discriminate|].
+  apply elem_of_cons in Hx as [->|Hx]; [exact Hfa|apply IH; assumption].
+Qed.
+
+Lemma next_event_some s e :
+  vwf s -> next_event s = Some e -> plain e /\ effective s e = true /\ is_Some (vstep s e).
+Proof.
+  intros Hwf H. apply first_some_Some in H as (p & Hp & He). apply peers_all in Hp.
+  assert (Hex : is_Some (vp s !! p)) by (apply (wf_exists s p Hwf); exact Hp).
+  assert (Hexh : is_Some (vp s !! host)) by (apply (wf_exists s host Hwf); left; reflexivity).
+  destruct Hex as [x Hx]. destruct Hexh as [xh Hxh].
+  unfold peer_event in He. destruct (pdirty s p || ptoken s p) eqn:Hf.
+  - injection He as <-. split; [exact I|]. split; [exact Hf|]. simpl. rewrite Hx.
+    destruct (dirty x || token x); eauto.
+  - destruct (poutq s p) as [|v0 q0] eqn:Hq.
+    + destruct (link s host p) as [|v rest] eqn:Hl1.
+      * destruct (link s p host) as [|v rest] eqn:Hl2; [discriminate|]. injection He as <-.
+        split; [exact I|]. split; [reflexivity|]. simpl. rewrite Hl2, Hxh. destruct (bool_decide _); eauto.
+      * injection He as <-. split; [exact I|]. split; [reflexivity|]. simpl. rewrite Hl1, Hx.
+        destruct (bool_decide _); eauto.
+    + injection He as <-. split; [exact I|]. split; [simpl; rewrite Hq; reflexivity|]. simpl. rewrite Hx.
+      destruct (outq x); eauto.
+Qed.
+
+Lemma next_event_none s : vwf s -> next_event s = None -> vquiescent s.
+Proof.
+  intros Hwf H. pose proof (first_some_None _ _ H) as Hall.
+  assert (Hp : forall p, peers s p ->
+            pdirty s p = false /\ ptoken s p = false /\ poutq s p = [] /\ link s host p = [] /\ link s p host = []).
+  { intros p Hp. apply peers_all in Hp. specialize (Hall p Hp). unfold peer_event in Hall.
+    destruct (pdirty s p || ptoken s p) eqn:Hf; [discriminate|]. apply orb_false_iff in Hf as [Hd Ht].
+    destruct (poutq s p); [|discriminate]. destruct (link s host p); [|discriminate].
+    destruct (link s p host); [|discriminate]. auto. }
+  apply quiescent_intro.
+  - intros a b. destruct (link s a b) as [|v l] eqn:Hl; [reflexivity|]. exfalso.
+    assert (Hne : link s a b <> []) by (rewrite Hl; discriminate).
+    destruct (wf_link s a b Hwf Hne) as [[-> Hin]|[-> Hin]].
+    + destruct (Hp b (or_intror Hin)) as (_ & _ & _ & E & _). congruence.
+    + destruct (Hp a (or_intror Hin)) as (_ & _ & _ & _ & E). congruence.
+  - intros p. destruct (vp s !! p) as [x|] eqn:Hx.
+    + assert (Hpe : peers s p) by (apply (wf_exists s p Hwf); eauto).
+      destruct (Hp p Hpe) as (? & ? & ? & _). auto.
+    + unfold poutq, pdirty, ptoken. rewrite (getp_none s p Hx). auto.
+Qed.
+
+Lemma drain_general fuel : forall s,
+  vwf s -> vmeasure s <= fuel ->
+  exists s', vrun s (vdrain fuel s) = Some s' /\ vquiescent s' /\
+             effective_run s (vdrain fuel s) = true /\ Forall plain (vdrain fuel s).
+Proof.
+  induction fuel as [|k IH]; intros s Hwf Hm.
+  - simpl. exists s. split; [reflexivity|]. split; [|split; [reflexivity|constructor]].
+    destruct (next_event s) as [e|] eqn:Hn; [|apply next_event_none; assumption].
+    destruct (next_event_some s e Hwf Hn) as (_ & Heff & [s1 Hs1]).
+    pose proof (measure_decreases s e s1 Hwf Heff Hs1). lia.
+  - cbn [vdrain]. destruct (next_event s) as [e|] eqn:Hn.
+    + destruct (next_event_some s e Hwf Hn) as (Hpl & Heff & [s1 Hs1]). rewrite Hs1.
+      pose proof (measure_decreases s e s1 Hwf Heff Hs1) as Hlt.
+      destruct (IH s1 (step_wf s e s1 Hwf Hs1) ltac:(lia)) as (s' & Hrun & Hq & Her & Hpls).
+      exists s'. split; [cbn [vrun]; rewrite Hs1; exact Hrun|]. split; [exact Hq|]. split.
+      * apply effective_run_cons. split; [exact Heff|]. eauto.
+      * constructor; assumption.
+    + exists s. split; [reflexivity|]. split; [apply next_event_none; assumption|]. split; [reflexivity|constructor].
+Qed.
+
+(* from ANY well-formed state (conflicting writers, joins in progress, ... whatever happened before) the
+   executable schedule [vdrain] reaches a quiescent state by plain, effective events, in at most [vmeasure s]
+   of them; and by [exchange_bounded] no schedule of effective events can last longer *)
+Theorem drain_terminates s :
+  vwf s ->
+  exists tr s', Forall plain tr /\ effective_run s tr = true /\ vrun s tr = Some s' /\ vquiescent s' /\
+                length tr <= vmeasure s.
+Proof.
+  intros Hwf. destruct (drain_general (vmeasure s) s Hwf ltac:(lia)) as (s' & Hrun & Hq & Her & Hpl).
+  exists (vdrain (vmeasure s) s), s'. split; [exact Hpl|]. split; [exact Her|]. split; [exact Hrun|]. split; [exact Hq|].
+  apply exchange_bounded; assumption.
+Qed.
+Print Assumptions drain_terminates.
+
+(* every schedule of effective events ends, if continued as long as possible, in a quiescent state: a
+   well-formed state without an effective event is quiescent *)
+Theorem stuck_is_quiescent s :
+  vwf s -> (forall e s', plain e -> effective s e = true -> vstep s e = Some s' -> False) -> vquiescent s.
+Proof.
+  intros Hwf Hstuck. destruct (next_event s) as [e|] eqn:Hn; [|apply next_event_none; assumption].
+  destruct (next_event_some s e Hwf Hn) as (Hpl & Heff & [s1 Hs1]). exfalso. eauto.
+Qed.
+
+(* ---------- V3: traffic bound for any history ---------- *)
+
+Lemma vpot_eq M s : vpot M s = psum (fun _ => armed_units) s * M + up_msgs s * (M - 1).
+Proof. reflexivity. Qed.
+
+Definition ev_budget (M : nat) (e : vevent) : nat :=
+  match e with VWrite _ _ => M | VJoin _ => 1 | _ => 0 end.
+
+Lemma units_detect x : armed_units (detect' x) <= armed_units x.
+Proof.
+  unfold detect', vdetect, armed_units. destruct x as [c d t o]; simpl. destruct d, t; simpl; try lia.
+  rewrite app_length. destruct c; simpl; lia.
+Qed.
+
+Lemma others_length_lt src l : src ∈ l -> length (others src l) < length l.
+Proof. intros Hin. unfold others. eapply filter_length_lt; [exact Hin|]. intros H. apply H. reflexivity. Qed.
+
+(* one step: what is sent is paid by the potential, a write adds at most M, a join its snapshot *)
+Lemma traffic_any_step M s e s1 :
+  vwf s -> vstep s e = Some s1 -> length (vconn s1) <= M ->
+  sent_by s e + vpot M s1 <= vpot M s + ev_budget M e.
+Proof.
+  intros Hwf Hstep HM. rewrite !vpot_eq. set (F := fun _ : peer => armed_units).
+  destruct e as [p v|p|p|src dst|c]; simpl ev_budget.
+  - (* write *)
+    apply step_write in Hstep as (Hex & Hc & Hl & _ & Hp & Hq).
+    assert (Hu : up_msgs s1 = up_msgs s) by (apply up_same; [exact Hc|intros; unfold link; rewrite Hl; reflexivity]).
+    pose proof (psum_upd F s s1 p Hwf (peers_exists s p Hwf Hex) Hc Hq) as HP.
+    set (A1 := psum F s1) in *. set (A0 := psum F s) in *.
+    rewrite Hp in HP. unfold F, armed_units in HP. simpl in HP. fold (poutq s p) in HP.
+    assert (Hle : A1 <= A0 + 1).
+    { unfold poutq in HP. destruct (ptoken s p), (dirty (getp s p) && negb (token (getp s p))); simpl in HP; lia. }
+    rewrite Hu. simpl sent_by. nia.
+  - (* detect *)
+    apply step_detect in Hstep as (Hex & Hc & Hl & _ & Hp & Hq).
+    assert (Hu : up_msgs s1 = up_msgs s) by (apply up_same; [exact Hc|intros; unfold link; rewrite Hl; reflexivity]).
+    pose proof (psum_upd F s s1 p Hwf (peers_exists s p Hwf Hex) Hc Hq) as HP.
+    set (A1 := psum F s1) in *. set (A0 := psum F s) in *.
+    rewrite Hp in HP. pose proof (units_detect (getp s p)) as Hd. unfold F in HP.
+    rewrite Hu. simpl sent_by. nia.
+  - (* send *)
+    apply step_send in Hstep as (Hex & Hc & _ & Hp & Hq & Hl); [|apply wf_nodup, Hwf].
+    pose proof (psum_upd F s s1 p Hwf (peers_exists s p Hwf Hex) Hc Hq) as HP.
+    set (A1 := psum F s1) in *. set (A0 := psum F s) in *.
+    rewrite Hp in HP. unfold F, armed_units in HP. simpl in HP.
+    fold (pdirty s p) (ptoken s p) (poutq s p) in HP. unfold pdirty, ptoken in HP.
+    rewrite Hc in HM. simpl sent_by.
+    destruct (decide (p = host)) as [->|Hph].
+    + assert (Hu : up_msgs s1 = up_msgs s).
+      { apply up_same; [exact Hc|]. intros c Hin. rewrite Hl.
+        destruct (decide (c = host /\ _)) as [[E _]|_]; [|reflexivity].
+        exfalso. exact (wf_client_ne_host s c Hwf Hin E). }
+      change (host =? host)%N with true. cbv iota. rewrite Hu. nia.
+    + assert (Hin : p ∈ vconn s).
+      { destruct (peers_exists s p Hwf Hex) as [?|?]; [contradiction|assumption]. }
+      assert (HM1 : 1 <= M). { destruct (vconn s); [inversion Hin|simpl in HM; lia]. }
+      assert (Hu : up_msgs s1 + length (link s p host) = up_msgs s + length (link s1 p host)).
+      { apply up_upd; [exact Hwf|exact Hin|exact Hc|]. intros c' _ Hne. rewrite Hl.
+        destruct (decide (c' = p /\ _)) as [[E _]|_]; [contradiction|reflexivity]. }
+      assert (Hlp : length (link s1 p host) = length (link s p host) + length (poutq s p)).
+      { rewrite Hl. destruct (decide (p = p /\ host ∈ dsts_of s p)) as [_|Hn]; [apply app_length|].
+        exfalso. apply Hn. split; [reflexivity|]. unfold dsts_of.
+        destruct (p =? host)%N eqn:E; [apply N.eqb_eq in E; contradiction|]. apply elem_of_list_singleton. reflexivity. }
+      destruct (p =? host)%N eqn:E; [apply N.eqb_eq in E; contradiction|].
+      destruct M as [|m]; [lia|]. replace (S m - 1) with m by lia. nia.
+  - (* deliver *)
+    apply step_deliver in Hstep as (v & rest & Hl0 & Hex & Hc & _ & Hq & Hcase); [|apply wf_nodup, Hwf].
+    rewrite Hc in HM.
+    assert (Hne0 : link s src dst <> []) by (rewrite Hl0; discriminate).
+    pose proof (psum_upd F s s1 dst Hwf (peers_exists s dst Hwf Hex) Hc Hq) as HP.
+    set (A1 := psum F s1) in *. set (A0 := psum F s) in *.
+    assert (HPle : A1 <= A0).
+    { destruct Hcase as [(_ & Hp & _)|(_ & Hp & _)]; rewrite Hp in HP; [lia|].
+      unfold F, armed_units in HP. simpl in HP. rewrite andb_false_r in HP. unfold poutq in HP. lia. }
+    simpl sent_by. rewrite Hl0.
+    destruct (wf_link s src dst Hwf Hne0) as [[-> Hin]|[-> Hin]].
+    + pose proof (wf_client_ne_host s dst Hwf Hin) as Hdh.
+      assert (Hlk : forall a b, link s1 a b = if decide ((a, b) = (host, dst)) then rest else link s a b).
+      { destruct Hcase as [(_ & _ & Hl)|(_ & _ & Hl)]; [exact Hl|]. intros a b. rewrite Hl.
+        destruct (decide (dst = host /\ _)) as [[E _]|_]; [contradiction|]. apply app_nil_r. }
+      assert (Hu : up_msgs s1 = up_msgs s).
+      { apply up_same; [exact Hc|]. intros c Hcin. rewrite Hlk.
+        destruct (decide ((c, host) = (host, dst))) as [E|_]; [|reflexivity]. inversion E; subst. contradiction. }
+      destruct (dst =? host)%N eqn:E; [apply N.eqb_eq in E; contradiction|].
+      rewrite Hu. destruct (bool_decide _); nia.
+    + pose proof (wf_client_ne_host s src Hwf Hin) as Hsh.
+      assert (Hup : forall c, link s1 c host = if decide (c = src) then rest else link s c host).
+      { intros c. destruct Hcase as [(_ & _ & Hl)|(_ & _ & Hl)]; rewrite Hl.
+        - destruct (decide ((c, host) = (src, host))) as [E|Hn]; destruct (decide (c = src)) as [E'|Hn']; try reflexivity; congruence.
+        - destruct (decide (host = host /\ c = host /\ _)) as [(_ & E & Hoth)|_].
+          + apply elem_of_others in Hoth as [_ Hoth]. exfalso. exact (wf_host s Hwf Hoth).
+          + rewrite app_nil_r.
+            destruct (decide ((c, host) = (src, host))) as [E|Hn]; destruct (decide (c = src)) as [E'|Hn']; try reflexivity; congruence. }
+      assert (Hu : up_msgs s1 + length (link s src host) = up_msgs s + length (link s1 src host)).
+      { apply up_upd; [exact Hwf|exact Hin|exact Hc|]. intros c' _ Hne. rewrite Hup.
+        destruct (decide (c' = src)); [contradiction|reflexivity]. }
+      rewrite Hup in Hu. destruct (decide (src = src)) as [_|?]; [|congruence]. rewrite Hl0 in Hu. simpl in Hu.
+      pose proof (others_length_lt src (vconn s) Hin) as Hoth.
+      change (host =? host)%N with true. cbv iota.
+      destruct M as [|m]; [lia|]. replace (S m - 1) with m by lia.
+      destruct (bool_decide _); nia.
+  - (* join *)
+    apply step_join in Hstep as (Hch & Hcn & Hnone & Hc & _ & Hg & Hl).
+    assert (HP : psum F s1 = psum F s).
+    { unfold psum. rewrite Hc. change (host :: vconn s ++ [c]) with ((host :: vconn s) ++ [c]).
+      rewrite sum_with_snoc. rewrite (sum_with_ext _ (fun p => F p (getp s p))) by (intros x _; rewrite Hg; reflexivity).
+      rewrite Hg, (getp_none s c Hnone). unfold F, armed_units. simpl. lia. }
+    assert (Hu : up_msgs s1 = up_msgs s).
+    { unfold up_msgs. rewrite Hc, sum_with_snoc.
+      rewrite (sum_with_ext _ (fun c' => length (link s c' host))).
+      - rewrite Hl. destruct (decide ((c, host) = (host, c))) as [E|_]; [inversion E; congruence|].
+        rewrite (wf_link_nil s c host Hwf Hcn (wf_host s Hwf)). simpl. lia.
+      - intros x Hx. rewrite Hl. destruct (decide ((x, host) = (host, c))) as [E|_]; [|reflexivity].
+        inversion E; subst. contradiction. }
+    rewrite HP, Hu. simpl sent_by. destruct (pcur s host); lia.
+Qed.
+
+Lemma step_conn_len s e s1 :
+  vstep s e = Some s1 -> length (vconn s1) = length (vconn s) + match e with VJoin _ => 1 | _ => 0 end.
+Proof.
+  intros H. rewrite (step_conn s e s1 H). destruct e; try lia. rewrite app_length. reflexivity.
+Qed.
+
+Lemma traffic_any M tr : forall s,
+  vwf s -> length (vconn s) + length (joiners tr) <= M ->
+  total_sent s tr + match vrun s tr with Some s' => vpot M s' | None => 0 end
+  <= vpot M s + length (written tr) * M + length (joiners tr).
+Proof.
+  induction tr as [|e tr IH]; intros s Hwf HM.
+  - simpl. lia.
+  - cbn [total_sent vrun]. destruct (vstep s e) as [s1|] eqn:Hstep; [|lia].
+    pose proof (step_conn_len s e s1 Hstep) as Hlen.
+    assert (Hwj : length (written (e :: tr)) * M + length (joiners (e :: tr)) =
+                  length (written tr) * M + length (joiners tr) + ev_budget M e /\
+                  length (joiners (e :: tr)) = length (joiners tr) + match e with VJoin _ => 1 | _ => 0 end).
+    { destruct e; simpl; lia. }
+    destruct Hwj as [Hwj Hj].
+    assert (HM1 : length (vconn s1) + length (joiners tr) <= M) by lia.
+    pose proof (IH s1 (step_wf s e s1 Hwf Hstep) HM1) as IH1.
+    pose proof (traffic_any_step M s e s1 Hwf Hstep ltac:(lia)) as Hs.
+    lia.
+Qed.
+
+Lemma vpot_quiescent M s : vquiescent s -> vpot M s = 0.
+Proof.
+  intros Hq. rewrite vpot_eq. unfold psum, up_msgs. rewrite !sum_with_zero; [reflexivity| |].
+  - intros c _. rewrite (quiescent_link s c host Hq). reflexivity.
+  - intros p _. destruct (quiescent_peer s p Hq) as (Ho & Hd & _). unfold armed_units.
+    fold (pdirty s p) (poutq s p). rewrite Ho, Hd. reflexivity.
+Qed.
+
+Lemma clients_length n : length (clients n) = n.
+Proof. unfold clients. rewrite fmap_length, seq_length. reflexivity. Qed.
+
+(* GLOBAL TRAFFIC BOUND, any history: any number of writers, conflicting or not, any interleaving, joins at
+   any time, even traces that do not run to the end ([total_sent] counts the prefix that runs).
+   Every write costs at most one message per client that is ever connected; every join one snapshot. *)
+Theorem traffic_bounded_any n tr :
+  total_sent (vinit n) tr <= length (written tr) * (n + length (joiners tr)) + length (joiners tr).
+Proof.
+  pose proof (traffic_any (n + length (joiners tr)) tr (vinit n) (vinit_wf n)) as H.
+  simpl vconn in H. rewrite clients_length in H. specialize (H ltac:(lia)).
+  rewrite (vpot_quiescent _ _ (vinit_quiescent n)) in H. lia.
+Qed.
+Print Assumptions traffic_bounded_any.
+
+(* the same from any quiescent well-formed state *)
+Theorem traffic_bounded_from_quiescent s tr :
+  vwf s -> vquiescent s ->
+  total_sent s tr <= length (written tr) * (length (vconn s) + length (joiners tr)) + length (joiners tr).
+Proof.
+  intros Hwf Hq. pose proof (traffic_any (length (vconn s) + length (joiners tr)) tr s Hwf ltac:(lia)) as H.
+  rewrite (vpot_quiescent _ _ Hq) in H. lia.
+Qed.
+Print Assumptions traffic_bounded_from_quiescent.
+
+(* from ANY well-formed state: what is already pending is paid by the potential *)
+Theorem traffic_bounded_from_any s tr :
+  vwf s ->
+  let M := length (vconn s) + length (joiners tr) in
+  total_sent s tr <= vpot M s + length (written tr) * M + length (joiners tr).
+Proof.
+  intros Hwf M. pose proof (traffic_any M tr s Hwf ltac:(unfold M; lia)) as H. lia.
+Qed.
+Print Assumptions traffic_bounded_from_any.
+
+Definition write_or_plain (e : vevent) : Prop := match e with VJoin _ => False | _ => True end.
+
+Lemma joiners_nil tr : Forall write_or_plain tr -> joiners tr = [].
+Proof. induction 1 as [|e tr He _ IH]; [reflexivity|]. destruct e; simpl in *; try contradiction; exact IH. Qed.
+
+(* [value_messages_bounded_run] without the single-writer premise: k writes by ANY peers, in any
+   interleaving with detections, sends and deliveries, cost at most k * n messages *)
+Theorem value_messages_bounded_any_writers n tr :
+  Forall write_or_plain tr -> total_sent (vinit n) tr <= length (written tr) * n.
+Proof.
+  intros Hnj. pose proof (traffic_bounded_any n tr) as H. rewrite (joiners_nil tr Hnj) in H. simpl in H.
+  rewrite Nat.add_0_r in H. lia.
+Qed.
+Print Assumptions value_messages_bounded_any_writers.
+
+(* SELF-QUENCHING: once nobody is armed and nobody writes or joins, the only traffic left is the relays of
+   the updates still travelling towards the host *)
+Lemma unarmed_units s p : varmed s p = false -> armed_units (getp s p) = 0.
+Proof.
+  unfold varmed, armedx, armed_units. destruct (getp s p) as [c d t o]; simpl.
+  intros H. apply orb_false_iff in H as [Ho ->]. destruct o; [reflexivity|discriminate].
+Qed.
+
+Lemma written_nil tr : Forall plain tr -> written tr = [].
+Proof. induction 1 as [|e tr He _ IH]; [reflexivity|]. destruct e; simpl in *; try contradiction; exact IH. Qed.
+
+Theorem traffic_self_quenching s tr :
+  vwf s -> unarmed s -> Forall plain tr ->
+  total_sent s tr <= up_msgs s * (length (vconn s) - 1).
+Proof.
+  intros Hwf Hu Hpl.
+  assert (Hj : joiners tr = []).
+  { apply joiners_nil. eapply Forall_impl; [exact Hpl|]. intros e He. destruct e; simpl in *; auto. }
+  pose proof (traffic_any (length (vconn s)) tr s Hwf) as H. rewrite Hj, (written_nil tr Hpl) in H.
+  simpl in H. specialize (H ltac:(lia)). rewrite vpot_eq in H.
+  assert (HP : psum (fun _ => armed_units) s = 0).
+  { unfold psum. apply sum_with_zero. intros p _. apply unarmed_units, Hu. }
+  rewrite HP in H. lia.
+Qed.
+Print Assumptions traffic_self_quenching.
+
+(* in particular: nobody armed and nothing travelling towards the host => not a single message more *)
+Corollary traffic_silent s tr :
+  vwf s -> unarmed s -> (forall c, link s c host = []) -> Forall plain tr -> total_sent s tr = 0.
+Proof.
+  intros Hwf Hu Hl Hpl. pose proof (traffic_self_quenching s tr Hwf Hu Hpl) as H.
+  assert (Hup : up_msgs s = 0). { unfold up_msgs. apply sum_with_zero. intros c _. rewrite Hl. reflexivity. }
+  rewrite Hup in H. lia.
+Qed.
+
+(* ---------- C09, component part: summary ---------- *)
+
+Lemma effective_run_plain tr : forall s, effective_run s tr = true -> Forall plain tr.
+Proof.
+  induction tr as [|e tr IH]; intros s H; [constructor|].
+  apply effective_run_cons in H as (He & s1 & _ & Hr). constructor; [|eapply IH; exact Hr].
+  destruct e; simpl in *; try discriminate; exact I.
+Qed.
+
+Lemma effective_run_runs tr : forall s, effective_run s tr = true -> is_Some (vrun s tr).
+Proof.
+  induction tr as [|e tr IH]; intros s H; [simpl; eauto|].
+  apply effective_run_cons in H as (_ & s1 & Hs & Hr). cbn [vrun]. rewrite Hs. apply IH, Hr.
+Qed.
+
+(* whatever happened (any writers, any conflicts, any joins, any interleaving), in the state s reached:
+   - the traffic so far is bounded by the writes and the joins,
+   - any exchange that follows without new writes is finite (at most [vmeasure s] effective events) and
+     costs at most [vpot] messages,
+   - and it can always be driven to a quiescent state. *)
+Theorem C09_component n tr s :
+  vrun (vinit n) tr = Some s ->
+  total_sent (vinit n) tr <= length (written tr) * (n + length (joiners tr)) + length (joiners tr) /\
+  (forall tr', effective_run s tr' = true ->
+     length tr' <= vmeasure s /\ total_sent s tr' <= vpot (length (vconn s)) s) /\
+  (exists tr' s', effective_run s tr' = true /\ vrun s tr' = Some s' /\ vquiescent s').
+Proof.
+  intros Hrun. pose proof (run_wf _ _ _ (vinit_wf n) Hrun) as Hwf. split; [apply traffic_bounded_any|]. split.
+  - intros tr' He. split; [apply exchange_bounded; assumption|].
+    pose proof (effective_run_plain tr' s He) as Hpl.
+    pose proof (traffic_bounded_from_any s tr' Hwf) as H. cbv zeta in H.
+    assert (Hj : joiners tr' = []).
+    { apply joiners_nil. eapply Forall_impl; [exact Hpl|]. intros e Hp. destruct e; simpl in *; auto. }
+    rewrite Hj, (written_nil tr' Hpl) in H. cbn [length] in H. rewrite !Nat.add_0_r in H. lia.
+  - destruct (drain_terminates s Hwf) as (tr' & s' & _ & He & Hr & Hq & _). eauto.
+Qed.
+Print Assumptions C09_component.
+
+(* ---------- V4: non-vacuity ---------- *)
+
+Lemma unarmed_check s : vwf s -> unarmedb s = true -> unarmed s.
+Proof.
+  intros Hwf Hb p. unfold unarmedb in Hb. rewrite forallb_forall in Hb.
+  destruct (vp s !! p) as [x|] eqn:Hx.
+  - assert (Hp : peers s p) by (apply (wf_exists s p Hwf); eauto).
+    apply peers_all, elem_of_list_In in Hp. apply Hb in Hp. apply negb_true_iff in Hp. exact Hp.
+  - unfold varmed. rewrite (getp_none s p Hx). reflexivity.
+Qed.
+
+Definition st_after (n : nat) (tr : list vevent) : vstate := default (vinit 0) (vrun (vinit n) tr).
+
+Lemma st_after_wf n tr : is_Some (vrun (vinit n) tr) -> vwf (st_after n tr).
+Proof. intros [s Hs]. unfold st_after. rewrite Hs. simpl. eapply run_wf; [apply vinit_wf|exact Hs]. Qed.
+
+(* two clients write conflicting values at the same time; both announcements are on their way to the host *)
+Definition ex_c09_conflict : list vevent :=
+  [VWrite 1 10; VDetect 1; VSend 1; VWrite 2 20; VDetect 2; VSend 2]%N.
+(* what follows: both are applied and relayed by the host, the relays are applied, every detector and every
+   send runs: nothing is echoed *)
+Definition ex_c09_follow : list vevent :=
+  [VDeliver 1 0; VDeliver 2 0; VDeliver 0 2; VDeliver 0 1; VDetect 0; VDetect 1; VDetect 2;
+   VSend 0; VSend 1; VSend 2]%N.
+
+(* V1: the hypotheses of [no_echo] hold in a state with traffic in flight, the run is not trivial (two relays
+   are emitted, values are applied on three peers), and the conclusion is observed *)
+Example no_echo_nonvacuous :
+  let s := st_after 2 ex_c09_conflict in
+  unarmed s /\ Forall plain ex_c09_follow /\
+  (fun s' => (view s' [0; 1; 2]%N, unarmedb s')) <$> vrun s ex_c09_follow
+    = Some (([Some 20; Some 20; Some 10]%N, true), true) /\
+  emitters s ex_c09_follow = [VDeliver 1 0; VDeliver 2 0]%N /\
+  total_sent s ex_c09_follow = 2 /\ up_msgs s * (length (vconn s) - 1) = 2.
+Proof.
+  split; [|split; [|vm_compute; auto]].
+  - apply unarmed_check; [apply st_after_wf; vm_compute; eauto|vm_compute; reflexivity].
+  - unfold ex_c09_follow. repeat constructor.
+Qed.
+
+(* V1: [deliver_no_echo] applies to the host and to a client (the peer is unarmed, the update is applied) *)
+Example deliver_no_echo_nonvacuous :
+  let s := st_after 2 ex_c09_conflict in
+  varmed s 0%N = false /\ is_Some (vstep s (VDeliver 1 0)%N) /\ pcur s 0%N = None /\
+  (fun s' => pcur s' 0%N) <$> vstep s (VDeliver 1 0)%N = Some (Some 10%N).
+Proof. vm_compute. eauto. Qed.
+
+(* V1: arming is not monotone: a delivery DISARMS a peer whose write has not been detected yet (the token
+   swallows the local write: the lost update of [C02_lost_write_example]) *)
+Example deliver_disarms :
+  let s := st_after 2 [VWrite 1 10; VDetect 1; VSend 1; VDeliver 1 0; VWrite 2 20]%N in
+  varmed s 2%N = true /\ (fun s' => varmed s' 2%N) <$> vstep s (VDeliver 0 2)%N = Some false.
+Proof. vm_compute. auto. Qed.
+
+(* a history with three conflicting writers (the host included), a join in the middle, re-writes of values
+   already sent, stopped in the middle of the exchange *)
+Definition ex_c09_history : list vevent :=
+  [VWrite 1 10; VWrite 2 20; VDetect 1; VDetect 2; VSend 1; VSend 2; VJoin 3; VDeliver 1 0; VWrite 0 30;
+   VDeliver 2 0; VWrite 1 10; VDetect 1; VSend 1; VDetect 0; VWrite 2 20; VDeliver 0 2; VWrite 3 40;
+   VDetect 3; VSend 3]%N.
+
+(* V2: the state reached is well-formed, not quiescent, has measure 23; the executable drain schedule
+   reaches a quiescent state in 18 effective events and 4 messages (<= vpot = 4) *)
+Example termination_nonvacuous :
+  let s := st_after 2 ex_c09_history in
+  let d := vdrain (vmeasure s) s in
+  is_Some (vrun (vinit 2) ex_c09_history) /\ vwf s /\ vquiescentb s = false /\ vmeasure s = 23 /\
+  effective_run s d = true /\ length d = 18 /\ total_sent s d = 4 /\ vpot (length (vconn s)) s = 4 /\
+  (fun s' => view s' [0; 1; 2; 3]%N) <$> vrun s d = Some ([Some 40; Some 40; Some 40; Some 10]%N, true).
+Proof.
+  split; [vm_compute; eauto|]. split; [apply st_after_wf; vm_compute; eauto|]. vm_compute. auto 10.
+Qed.
+
+(* every event of that drain decreases the measure: its values along the schedule *)
+Example measure_trace :
+  let s := st_after 2 ex_c09_history in
+  vmeasure <$> vstates s (vdrain (vmeasure s) s) = [23; 22; 21; 18; 17; 16; 14; 13; 12; 11; 10; 9; 8; 5; 4; 3; 2; 1; 0].
+Proof. vm_compute. reflexivity. Qed.
+
+(* V3: 6 writes by 3 conflicting writers + 1 join cost 8 messages so far, the bound is 6*(2+1)+1 = 19 *)
+Example traffic_nonvacuous :
+  total_sent (vinit 2) ex_c09_history = 8 /\ length (written ex_c09_history) = 6 /\
+  length (joiners ex_c09_history) = 1 /\ writers ex_c09_history = [1; 2; 0; 1; 2; 3]%N.
+Proof. vm_compute. auto. Qed.
+
+(* V3: the bound is reached: the host writes, a client joins before the send: 1 snapshot + 3 copies *)
+Example traffic_any_tight :
+  let tr := [VWrite 0 5; VJoin 3; VDetect 0; VSend 0]%N in
+  total_sent (vinit 2) tr = 4 /\ length (written tr) * (2 + length (joiners tr)) + length (joiners tr) = 4.
+Proof. vm_compute. auto. Qed.
+
+(* V3: re-writing the value everybody already shows still costs the announcement(s) but no relay *)
+Example traffic_rewrite :
+  let tr1 := [VWrite 1 10; VDetect 1; VSend 1; VDeliver 1 0; VDeliver 0 2; VDetect 0; VDetect 2]%N in
+  let tr2 := [VWrite 1 10; VDetect 1; VSend 1; VDeliver 1 0; VWrite 0 10; VDetect 0; VSend 0;
+              VDeliver 0 1; VDeliver 0 2]%N in
+  total_sent (vinit 2) tr1 = 2 /\ vquiescentb (st_after 2 tr1) = true /\
+  total_sent (st_after 2 tr1) tr2 = 3 /\ vquiescentb (st_after 2 (tr1 ++ tr2)) = true.
+Proof. vm_compute. auto. Qed.
